@@ -12,561 +12,428 @@ Definition show_fres (r : fres) : string :=
   end.
 Definition check (rs : list rune) : string := digest (show_fres (format_res rs)).
 Definition full (rs : list rune) : string := show_fres (format_res rs).
-Eval vm_compute in ("<<<M3718>>>" ++ check (runes_of_ascii "
-packet o{  i64
-Packet `
-`
-
-,
-} root packet  falsey  { i8
-zchar	@lengthOf(
-i64_ )
-// trailing space 
-    , @tag( 
-255
-
-) 
-char[ 
-10
-    ]	// c
-      i64_ @calculatedFrom( ""\n"" ) `u8 x,`, @leftPad
-	(
-' ' ) i64
-	uint8x,repeat
-	u8x
-	{	// " ++ [27880; 37322]%N ++ runes_of_ascii "
-    rootA {  MetaDataX
-@lengthOf( 	 // `tick` ""quote"" 'q'
-  trueish )  , 
-T  @lengthOf( f32a) 
-,
-// a // b
-		repeat
-	stringy ,
-    }
-,pack
-
-    @calculatedFrom(
-""it's""
-)
-
-    , i16
-
-    metadata`u8 x,` ,
-
-repeat int  ,
-
-}
-
-    ,  
-  // @lengthOf(
-	} packet 
-// " ++ [128512]%N ++ runes_of_ascii " emoji
-  body {leftPad
-{match	u8x
-as 
-i64_ { 	 // @lengthOf(
-
-[
-    007
-,
-    0
-
-] :
-	a1 
-,  [
-    42
-    ]	:
-	A,}	,
-    match x	as
-Z9_
-    {	007
-    :
-    MetaDataX ,
-0
-//	t
-:leftPad ,
-""" ++ [128512]%N ++ runes_of_ascii """
-:MetaDataX  ,""abc"" 
-:
-    uint8x , 007:trueish, 
-
-// c
-
-}
-
-    ,
-
-}
-
-,
-    zchar @calculatedFrom(
-
-""// no comment""	)
-, trueish @lengthOf( u
-    )	`line1
-line2`
-
-    ,
-@calculatedFrom(
-
-    ""abc""  )  char[]
-    /// triple
-
-  len/// triple
-    `tab	here` ,
-
-    float64
-	zchar  `line1
-line2`,  match
-i64_ //
-	as body
-
-{
-
-    [  // @lengthOf(
-      0123456789 
-
-    // c
-]
-:  float 10
-
-    :
-Foo,  [
-""CRC32""] :
-    Foo""x y""	: 
-metadata
-    , [
-    10
-
-    ,255
-
-    ,	""abc"" , 0123456789	,	//x
-  0
-,
-1 ,	7
-
-]  : f32a
-    ,	}  ,@calculatedFrom(
-    ""{,}""
-    )
-@lengthOf(
-len // a // b
-
-)match
-x_y_z
-
-as
-uint8x
-{
-
-    ""\" ++ [233]%N ++ runes_of_ascii """
-
-:T	,
-
-}
-,  o @lengthOf(	// trailing space 
-body
-
-)  , u64  //
-  o @calculatedFrom(  ""a	b""
-)	// c
-  `say ""hi""`,  repeat
-    string
-
-    Header ,
-}
-packet
-
-    zchar
-
-{ 
-    // `tick` ""quote"" 'q'
-		// packet A { u8 x, }
-	@rightPad
-    (  // " ++ [27880; 37322]%N ++ runes_of_ascii "
-    '0' 
-    //	t
-/// triple
-) 
-repeat 
-zchar[ 3
-    ] o
-
-`doc` 
-,
-
-    zchar[ 
-    // packet A { u8 x, }
-	  4294967296
-    ] 
-x_y_z  ,
-
-    @calculatedFrom(  ""{,}"" 
-    /// triple
-      )
-@calculatedFrom( """ ++ [28040; 24687]%N ++ runes_of_ascii """
-
-    )
-	float32
-
-    A 
-@lengthOf(
-
-Pad ), @tag( 7 )
-// `tick` ""quote"" 'q'
-
-  Packet @calculatedFrom(
-	""// no comment""
-    ) , zchar[
-
-    10
-	]
-asx 
-    // " ++ [27880; 37322]%N ++ runes_of_ascii "
-      ``/// triple
-		,	tag
-    len `tab	here` ,  }
-
-")).
-Eval vm_compute in ("<<<M3532>>>" ++ check (runes_of_ascii "// top
-options // c0
-{
-    // c1
+Eval vm_compute in ("<<<M3530>>>" ++ check (runes_of_ascii "// top
+options // c0a
+  // c0b
+{ // c1
 LittleEndian = // c3a
   // c3b
-true // c4a
-  // c4b
-;
-    // c5
-FixedStringPadFromLeft // c6
-= true ;
-    // c9
-FixedStringPadChar = // c11a
-  // c11b
-'0'
-    // c12
-; // c13
-} // c14
-packet
+false
+    // c4
+; // c5a
+  // c5b
+StringPrefixLenType
+    // c6
+= u16 ; // c9
+ArrayPrefixLenType = // c11
+u64 // c12a
+  // c12b
+; FixedStringPadFromLeft // c14a
+  // c14b
+=
     // c15
-Trade // c16a
-  // c16b
-{ // c17
-string // c18
-clOrdID
-    // c19
-, // c20a
-  // c20b
-char[] // c21a
-  // c21b
-Px // c22
-,
-    // c23
-u32 // c24
-x // c25
-, // c26
-}
-    // c27
-packet // c28a
-  // c28b
-Reject // c29
-{
-    // c30
-int32 // c31a
-  // c31b
-Side2 ,
-    // c33
-repeat // c34a
-  // c34b
-char[
-    // c35
-3 ] // c37
-clOrdID // c38
-,
-    // c39
-i32
-    // c40
-tag7
-    // c41
-,
-    // c42
-} // c43
-packet // c44a
-  // c44b
-Leg // c45a
-  // c45b
-{ // c46a
-  // c46b
-}
-    // c47
-root // c48
-packet // c49
-Quote // c50
-{ string // c52
-Side2 // c53
-, // c54
-string lastPx , // c57a
-  // c57b
-InSym58 // c58a
-  // c58b
-{ // c59a
-  // c59b
-int16
-    // c60
-OrderId
-    // c61
-, // c62a
-  // c62b
-Reject // c63a
-  // c63b
-, // c64a
-  // c64b
-i8 // c65
-Qty , // c67
-i64 // c68
-venue // c69
-, // c70
-f32 // c71
-Note ,
-    // c73
-} // c74a
-  // c74b
-, // c75
-char[] // c76
-count // c77a
-  // c77b
-, // c78a
-  // c78b
-zchar[
-    // c79
-9 ] // c81
-price
-    // c82
-, // c83a
-  // c83b
-u16 // c84a
-  // c84b
-Qty
-    // c85
-, match // c87
-Qty // c88a
-  // c88b
-as
-    // c89
-Body
-    // c90
-{ // c91a
-  // c91b
-69 // c92a
-  // c92b
-: // c93a
-  // c93b
-Leg // c94a
-  // c94b
-,
-    // c95
-48
-    // c96
-:
-    // c97
-Trade // c98a
-  // c98b
-, // c99a
-  // c99b
-51
-    // c100
-: // c101
-Reject
-    // c102
-,
-    // c103
-}
-    // c104
-, // c105
-u16 Acct // c107a
-  // c107b
-@calculatedFrom( ""CRC32""
-    // c109
-) // c110
-,
-    // c111
-} // c112a
-  // c112b
-")).
-Eval vm_compute in ("<<<M1387>>>" ++ check (runes_of_ascii "
-MetaData x { string_ x
-    `tab	here`,}
-packet
-u { @tag(
-1 ) match x
-as
-    Z9_
-{
-""a\""b"" : asx
-    } , // " ++ [128512]%N ++ runes_of_ascii " emoji
-leftPad @calculatedFrom(
-    ""it's"" ) `" ++ [28040; 24687; 31867; 22411]%N ++ runes_of_ascii "` ,//	t
-@tag(10 ) Packet ,
-u64
-//x
-// a // b
-stringy @calculatedFrom( ""1"" )  `doc`
-    , char[ 3 ]// " ++ [128512]%N ++ runes_of_ascii " emoji
-x_y_z @lengthOf( lengthOf
-)	`" ++ [28040; 24687; 31867; 22411]%N ++ runes_of_ascii "` , } root packet Pad
-{ int8
-Header @calculatedFrom(
-""1""  ) `u8 x,` ,
-@calculatedFrom(
-    """ ++ [128512]%N ++ runes_of_ascii """// packet A { u8 x, }
-) int64 BodyLength
-`u8 x,`
-, @leftPad
-    ( ' '
-    // a // b
-    )
-char[]
-float ,@lengthOf(//x
-repeatCount ) char[] repeatCount, } packet falsey
-//
-// `tick` ""quote"" 'q'
-{@calculatedFrom( """ ++ [28040; 24687]%N ++ runes_of_ascii """) @rightPad ( )@leftPad // c
-( '\x00' )	zchar[3]
-i8i8 `tab	here`
-,
-    }
-//x
-// packet A { u8 x, }
-packet
-zchar
-    { Header
-@calculatedFrom(
-    ""a\\"" ) , // a // b
-msg_type``
-,  @calculatedFrom( """ ++ [28040; 24687]%N ++ runes_of_ascii """)  Logon
-    zchar	,i32 u128 @calculatedFrom(""packet"")
-// packet A { u8 x, }
-/// triple
-,
-// `tick` ""quote"" 'q'
-// c
-u8 _x
-    `
-` ,
-@leftPad ( '0'
-) uint16 asx `a\` ,@calculatedFrom( ""\n"" )
-@calculatedFrom( ""a	b""	)
-    float64
-    leftPad @lengthOf(
-    // c
-    repeatCount
-/// triple
-//
-) `it's` , match metadata
-as
-options1 { [  42, 1	]// `tick` ""quote"" 'q'
-: BodyLength""`tick`""
-    :_x ,
-    65535
-: asx, 65535
-    : BodyLength ""a\\"" :
-    //
-    string_ } ,match
-/// triple
-//
-uint8x as
-chars
-{ 10 :/// triple
-Logon
-""// no comment"": float , /// triple
-[ ""packet""	,  7
-] :MetaDataX
-    10
-:asx
-    , """ ++ [28040; 24687]%N ++ runes_of_ascii """ :
-i64_ ,} ,  }")).
-Eval vm_compute in ("<<<M938>>>" ++ check (runes_of_ascii "root packet
-    options1{ repeat u { f64 roots// @lengthOf(
-, },
-    zchar falsey `crlf
-line`// `tick` ""quote"" 'q'
-,
-    match
-u
-    as Foo
-{ 42
-: lengthOf
-    , ""\n"" : crc,
-[
-4294967296 // c
-,// trailing space 
-4294967296
-    , 3 ,
-""\" ++ [233]%N ++ runes_of_ascii """	,
-// " ++ [128512]%N ++ runes_of_ascii " emoji
-//x
-""x y"" ]:	o ,}  ,
-    a1`crlf
-line`, @rightPad(
-// " ++ [128512]%N ++ runes_of_ascii " emoji
-//
-) char[ 0123456789 // " ++ [128512]%N ++ runes_of_ascii " emoji
-] //
-x_y_z  `line1
-line2`
-, @lengthOf(trueish ) i32 A// packet A { u8 x, }
-`u8 x,` ,}
-packet packetx	{ // " ++ [128512]%N ++ runes_of_ascii " emoji
-match	u as
-u8x
-    {// " ++ [27880; 37322]%N ++ runes_of_ascii "
-255 :
-lengthOf	,	[ """ ++ [233]%N ++ runes_of_ascii "t" ++ [233]%N ++ runes_of_ascii """, 7
-    ,00	, // packet A { u8 x, }
-""a\\"", 10 ,0 ,
-    007 ,  3
-    // c
-    ]
-: string_ 0123456789: f32a // " ++ [128512]%N ++ runes_of_ascii " emoji
-,
-}	, // trailing space 
-stringy@calculatedFrom( ""\" ++ [233]%N ++ runes_of_ascii """
-)`line1
-line2`
-    //x
-    , @leftPad
-    (
-) zchar[
-10 ] trueish , // packet A { u8 x, }
-}root packet Logon {
-i64_
-@lengthOf( int )`// not a comment` , @tag(3) match lengthOf as pack
-{
-42 // `tick` ""quote"" 'q'
-:
-    T, 255
-    : int
-    , 007 : tag // " ++ [128512]%N ++ runes_of_ascii " emoji
-,4294967296 : _x, }
-, @calculatedFrom( ""packet"" ) @tag( 10
-// @lengthOf(
-// a // b
-) @tag(65535 )
-zchar[ 65535
-] roots ,
-    @rightPad ( // `tick` ""quote"" 'q'
+true // c16
+; // c17a
+  // c17b
+FixedStringPadChar
+    // c18
+= // c19
 ' '
-) @tag(
-7)
-    // @lengthOf(
-    string
-Packet @lengthOf(
-    u	)  `tab	here` // trailing space 
+    // c20
+; // c21
+} // c22a
+  // c22b
+packet
+    // c23
+Logon // c24a
+  // c24b
+{ // c25
+u16 // c26a
+  // c26b
+Tail // c27a
+  // c27b
+, repeat string
+    // c30
+x
+    // c31
+, i16
+    // c33
+count // c34a
+  // c34b
+, @leftPad // c36a
+  // c36b
+( // c37
+'0' ) // c39a
+  // c39b
+char[ 3 // c41
+]
+    // c42
+Note // c43a
+  // c43b
+, } // c45
+packet // c46a
+  // c46b
+Fill // c47
+{
+    // c48
+}
+    // c49
+packet Heartbeat // c51a
+  // c51b
+{
+    // c52
+} // c53
+packet
+    // c54
+Reject // c55
+{ // c56
+string // c57
+msgKind // c58a
+  // c58b
+, // c59a
+  // c59b
+repeat
+    // c60
+Logon // c61
+, // c62
+InFlags25 // c63
+{ repeat InPrice29 { u8 // c68a
+  // c68b
+price // c69a
+  // c69b
+, // c70a
+  // c70b
+Logon
+    // c71
+, repeat
+    // c73
+char[ // c74a
+  // c74b
+1 // c75a
+  // c75b
+] Note
+    // c77
+, }
+    // c79
+, // c80
+char[] // c81
+x // c82
+, // c83
+Fill , // c85
+} // c86a
+  // c86b
+, repeat // c88a
+  // c88b
+Heartbeat , // c90a
+  // c90b
+} // c91a
+  // c91b
+root // c92
+packet // c93a
+  // c93b
+Order { InNote88 // c96
+{ // c97
+repeat // c98a
+  // c98b
+i32
+    // c99
+Acct ,
+    // c101
+repeat // c102a
+  // c102b
+i16 clOrdID // c104
+, // c105a
+  // c105b
+repeat // c106a
+  // c106b
+Logon // c107
+, } // c109
+, // c110a
+  // c110b
+u16 tag7 // c112a
+  // c112b
 ,
-    }
-packet metadata {} root packet x {}
+    // c113
+match // c114
+tag7 as
+    // c116
+Body // c117
+{ [
+    // c119
+14 // c120
+, // c121a
+  // c121b
+22 // c122a
+  // c122b
+] :
+    // c124
+Logon // c125
+,
+    // c126
+55 // c127a
+  // c127b
+: // c128a
+  // c128b
+Heartbeat , // c130
+93 // c131a
+  // c131b
+: Reject , // c134a
+  // c134b
+13 // c135
+: // c136a
+  // c136b
+Fill
+    // c137
+, // c138
+}
+    // c139
+, // c140a
+  // c140b
+}
+    // c141
 ")).
+Eval vm_compute in ("<<<M869>>>" ++ check (runes_of_ascii "// trailing space 
+root packet options1
+{
+match u8x as tag {1 :As } ,
+// packet A { u8 x, }
+// `tick` ""quote"" 'q'
+} // " ++ [128512]%N ++ runes_of_ascii " emoji
+root  packet
+// " ++ [27880; 37322]%N ++ runes_of_ascii "
+// " ++ [27880; 37322]%N ++ runes_of_ascii "
+roots
+{MetaDataX
+@calculatedFrom(""abc""
+)// " ++ [128512]%N ++ runes_of_ascii " emoji
+, //
+repeat zchar uint8x
+,
+u8x
+roots
+,// packet A { u8 x, }
+a1	`u8 x,`
+, float32 int@lengthOf( metadata ) `a\`, match
+    charz as i8i8
+    { 42	:Pad [  10  ,
+    ""1"" ] // `tick` ""quote"" 'q'
+:  pack}
+    // packet A { u8 x, }
+    , repeat // c
+Header
+// a // b
+//x
+, } packet repeatCount {
+    @lengthOf( metadata)@calculatedFrom( ""CRC32""
+    )@lengthOf(
+// c
+// " ++ [27880; 37322]%N ++ runes_of_ascii "
+x_y_z )
+    As @lengthOf(
+    u128 ), @calculatedFrom(
+    ""a	b""
+) // " ++ [27880; 37322]%N ++ runes_of_ascii "
+o {  A@calculatedFrom( ""CRC32""
+)
+`it's` , body`{ , }` , }, @calculatedFrom(""packet""
+    )
+    @lengthOf( A
+) @tag( 255 ) repeat BodyLength trueish ,  u
+{ Pad{ string repeatCount ``/// triple
+, } ,
+}
+    ,@tag(
+    4294967296
+)@tag(
+10 )repeat zchar tag
+,repeat crc {repeat tag	T // " ++ [27880; 37322]%N ++ runes_of_ascii "
+`" ++ [28040; 24687; 31867; 22411]%N ++ runes_of_ascii "`
+    , //
+match
+    // " ++ [128512]%N ++ runes_of_ascii " emoji
+    matchKey as crc {
+4294967296 /// triple
+: tag, """ ++ [128512]%N ++ runes_of_ascii """
+: // @lengthOf(
+Packet 65535: uint8x ,}// @lengthOf(
+,
+pack { f32 zchar @calculatedFrom( ""abc"" )
+,} , match zchar as// @lengthOf(
+options1
+{
+//
+// @lengthOf(
+0123456789	:x 007  : repeatCount
+[ ""packet""
+    //x
+    ,0123456789
+,
+    ""// no comment"",
+""x y"" ]
+// @lengthOf(
+// " ++ [128512]%N ++ runes_of_ascii " emoji
+:
+Header	, 3: MetaDataX	""// no comment""
+:
+    len  ,  [  0 ] :
+    //x
+    Header ,} ,
+} ,
+repeat f32a {repeat
+    Header  , // " ++ [27880; 37322]%N ++ runes_of_ascii "
+calculatedFrom
+{ a1 {leftPad
+`say ""hi""` ,
+    zchar[ 255 ]//x
+f32a //
+@calculatedFrom(
+""\n"" ) `// not a comment` ,  Foo @lengthOf(o ) //
+`" ++ [233]%N ++ runes_of_ascii "` , } , }	,},} 	 ")).
+Eval vm_compute in ("<<<M441>>>" ++ check (runes_of_ascii "packet // " ++ [27880; 37322]%N ++ runes_of_ascii "
+o //x
+{  @tag( 0 ) match leftPad as // @lengthOf(
+metadata { 1 :	calculatedFrom ,
+    7 : i64_ ,
+""it's""
+    : i64_ 0123456789 :repeatCount , 0
+    // packet A { u8 x, }
+    :
+    Foo }
+, lengthOf { A`doc`	, } , char[3
+] matchKey `{ , }` ,leftPad // `tick` ""quote"" 'q'
+{ repeat
+    // a // b
+    u8
+options1 ,
+body @calculatedFrom( """ ++ [128512]%N ++ runes_of_ascii """ )
+, zchar { // `tick` ""quote"" 'q'
+u64 Logon @lengthOf( u8x	)
+,
+char[ 007 ] packetx
+@lengthOf(
+    zchar )`
+` ,}
+, repeat metadata x ,	}
+    , u32 repeatCount
+    ,@tag(
+    // c
+    10
+)
+    @lengthOf( T  )
+u16 repeatCount `say ""hi""`, /// triple
+repeat
+u128 {
+//
+// packet A { u8 x, }
+zchar[4294967296 ] BodyLength  ,} , i32  x `doc`
+, }
+    packet MetaDataX { // a // b
+@tag(// c
+7
+) repeat lengthOf
+// a // b
+//
+,
+    } root
+packet As
+    {
+@lengthOf(
+lengthOf
+) match _x	as T{""packet"":string_ ,3 : // @lengthOf(
+BodyLength ,""" ++ [128512]%N ++ runes_of_ascii """ // trailing space 
+:
+    i64_, 0 :
+    lengthOf // trailing space 
+, /// triple
+7
+    : Logon} ,Z9_
+@calculatedFrom( ""\" ++ [233]%N ++ runes_of_ascii """ //	t
+) ,	float32
+int @lengthOf(
+    msg_type ) `// not a comment`
+// packet A { u8 x, }
+// `tick` ""quote"" 'q'
+,char[] A @calculatedFrom(	""\n""
+    )
+, @tag(4294967296) i8i8 {uint32
+u8x , } ,
+zchar[
+00
+// c
+// c
+] uint8x ,repeat msg_type string_	, repeat zchar[007//x
+]
+    Pad // " ++ [27880; 37322]%N ++ runes_of_ascii "
+`doc`,  match rootA as stringy {  007: leftPad , [ """ ++ [233]%N ++ runes_of_ascii "t" ++ [233]%N ++ runes_of_ascii """, 7 ] :
+    x
+},}
+")).
+Eval vm_compute in ("<<<M3865>>>" ++ check (runes_of_ascii "root packet As {
+    @calculatedFrom(""{,}"")
+    // packet A { u8 x, }
+    // @lengthOf(
+    Header {
+        repeat uint8 uint8x `// not a comment`,
+    },
+    @tag(3)
+    repeat i64 i64_ `it's`,
+    @lengthOf(i8i8)
+    repeat i64 metadata,
+    repeat i8 chars `a\`,
+    repeat zchar[4294967296] x_y_z,
+    @leftPad('0')
+    char[42] options1,
+    repeat o,
+}
+
+root packet float {
+}
+
+packet Packet {
+    uint8x roots,
+    zchar[0123456789] msg_type `a\`,
+    @calculatedFrom(""" ++ [233]%N ++ runes_of_ascii "t" ++ [233]%N ++ runes_of_ascii """)
+    //
+    // trailing space 
+    repeat Packet {
+        repeat int64 T,
+        repeat zchar[1] falsey `it's`,
+        match leftPad as f32a {
+            // " ++ [128512]%N ++ runes_of_ascii " emoji
+            ""a\""b"" : MetaDataX,
+            [65535] : rootA,
+        },
+    },
+    @tag(007)
+    repeat char[4294967296] Z9_,
+    string Packet @calculatedFrom(""CRC32"") `u8 x,`,
+}
+
+root packet x {
+    pack tag ``,// `tick` ""quote"" 'q'
+}
+
+packet Z9_ {
+    char[] BodyLength,
+    zchar @lengthOf(x) `" ++ [28040; 24687; 31867; 22411]%N ++ runes_of_ascii "`,
+    uint8 float,
+    i64 u8x,
+    @lengthOf(leftPad)
+    //
+    int @lengthOf(lengthOf),
+    zchar {
+        zchar[0] Z9_,
+    },
+    float `crlf
+        line`,
+    repeat Z9_ {
+        repeat options1,
+        i32 As,
+        string stringy @lengthOf(leftPad) `" ++ [28040; 24687; 31867; 22411]%N ++ runes_of_ascii "`,
+    },
+    char[10] x,
+    int,
+}// c")).
 Eval vm_compute in ("<<<M107>>>" ++ check (runes_of_ascii "packet chars
 {
     i8 Z9_ ,
@@ -633,745 +500,739 @@ u8x @calculatedFrom( """ ++ [233]%N ++ runes_of_ascii "t" ++ [233]%N ++ runes_of
     `
 `,
     } 	 ")).
-Eval vm_compute in ("<<<M1403>>>" ++ check (runes_of_ascii "options {
-	StringPrefixLenType = u16;
-	ArrayPrefixLenType = u16;
-}
-
-packet SampleBinary {
-	uint16 MsgType `" ++ [28040; 24687; 31867; 22411]%N ++ runes_of_ascii "`,
-	u16 BodyLenght @lengthOf(Body) `" ++ [28040; 24687; 20307; 38271; 24230]%N ++ runes_of_ascii "`,
-	match MsgType as Body {
-		1 : Logon,
-		2 : Logout,
-		3 : Heartbeat,
-		4 : RiskControlRequest,
-		5 : RiskControlResponse,
-	},
-		@calculatedFrom(""CRC32"")
-	u32 Ckecksum `" ++ [26657; 39564; 21644]%N ++ runes_of_ascii "`,
-}
-
-packet Logon {
-	 @leftPad('0')
-	char[10] UserName `" ++ [29992; 25143; 21517]%N ++ runes_of_ascii "`,
-	string Password `" ++ [23494; 30721]%N ++ runes_of_ascii "`,
-	uint64 ClientId `" ++ [23458; 25143; 31471]%N ++ runes_of_ascii "ID`,
-	u16 HeartbeatInterval `" ++ [24515; 36339; 38388; 38548]%N ++ runes_of_ascii "`,
-}
-
-packet Logout {
-	  @rightPad('0')
-	char[10] UserName `" ++ [29992; 25143; 21517]%N ++ runes_of_ascii "`,
-	uint64 ClientId `" ++ [23458; 25143; 31471]%N ++ runes_of_ascii "ID`,
-}
-
-packet Heartbeat {
-}
-
-packet RiskControlRequest {
-	string UniqueOrderId `" ++ [21807; 19968; 35746; 21333; 21495]%N ++ runes_of_ascii "`,
-	char[16] ClOrdID `" ++ [23458; 25143; 35746; 21333; 21495]%N ++ runes_of_ascii "`,
-	char[3] MarketID `" ++ [24066; 22330]%N ++ runes_of_ascii "id`,
-	char[12] SecurityID `" ++ [35777; 21048; 20195; 30721]%N ++ runes_of_ascii "`,
-	char Side `" ++ [20080; 21334; 26041; 21521]%N ++ runes_of_ascii "`,
-	char OrderType `" ++ [35746; 21333; 31867; 22411]%N ++ runes_of_ascii "`,
-	u64 Price `" ++ [20215; 26684]%N ++ runes_of_ascii "`,
-	u32 Qty `" ++ [25968; 37327]%N ++ runes_of_ascii "`,
-	repeat string ExtraInfo `" ++ [38468; 21152; 20449; 24687]%N ++ runes_of_ascii "`,
-	repeat SubOrder {
-			char[16] ClOrdID `" ++ [23376; 35746; 21333; 21495]%N ++ runes_of_ascii "`,
-			u64 Price `" ++ [23376; 35746; 21333; 20215; 26684]%N ++ runes_of_ascii "`,
-			u32 Qty `" ++ [23376; 35746; 21333; 25968; 37327]%N ++ runes_of_ascii "`,
-		},
-}
-
-packet RiskControlResponse {
-	string UniqueOrderId `" ++ [21807; 19968; 35746; 21333; 21495]%N ++ runes_of_ascii "`,
-	i32 Status `" ++ [29366; 24577]%N ++ runes_of_ascii "`,
-	string Msg `" ++ [32467; 26524; 20449; 24687]%N ++ runes_of_ascii "`,
-	repeat Detail,
-}
-
-packet Detail {
-	string RuleName `" ++ [35268; 21017; 21517; 31216]%N ++ runes_of_ascii "`,
-	u16 Code `" ++ [21407; 22240; 20195; 30721]%N ++ runes_of_ascii "`,
-}")).
-Eval vm_compute in ("<<<M4295>>>" ++ check (runes_of_ascii "  packet	lengthOf
-    { crc @calculatedFrom(	"""")
-`two words`
-, @lengthOf(
-	crc) 
-
-// c
-@calculatedFrom( ""x y"" ) u16
-    Logon
-`line1
-line2`, }	MetaData
-
-u128
-    { }
-packet
-len
-	{
-
-    match
-options1 
-as  pack	{
-
-    00
-: BodyLength
-
-    ,}, @calculatedFrom( ""a	b"") asx Z9_ `` ,
-@rightPad ( )	u32
-calculatedFrom @lengthOf( 
-asx
-    )	`doc` , @calculatedFrom(
-    """ ++ [28040; 24687]%N ++ runes_of_ascii """)
-uint8x
-
-    , repeat
-
-    zchar[ // " ++ [128512]%N ++ runes_of_ascii " emoji
-	  007  ]u128 , stringy{  repeat
-
-    zchar[
-    3
-
-]
-	A
-    ,repeat
-
-i64 o  /// triple
-    ``
-,
-    f32// @lengthOf(
-
-packetx @calculatedFrom(  ""\" ++ [233]%N ++ runes_of_ascii """ 
-) 
-,packetx
-
-    charz  , } ,
-    match  int as  Z9_
-    {
-""a\\""
-:
-crc  
-  // " ++ [128512]%N ++ runes_of_ascii " emoji
-
-  // " ++ [128512]%N ++ runes_of_ascii " emoji
-  ,
-
-    """" 
-/// triple
-	:
-    trueish  , [00
-,
-""\" ++ [233]%N ++ runes_of_ascii """
-, 4294967296
-] :Packet
-,}	, 
-    /// triple
-  // packet A { u8 x, }
-u8
-        // packet A { u8 x, }
-	/// triple
-  msg_type
-    // @lengthOf(
-		//
-
-	@lengthOf( i64_ )
-,	}  root
-    packet
-	A { BodyLength @lengthOf(
-
-    stringy
-)
-
-, rootA 
-As,repeat 
-BodyLength	options1
-`a\`	,	}")).
-Eval vm_compute in ("<<<M4421>>>" ++ check (runes_of_ascii "packet rootA {
-    @calculatedFrom(""// no comment"")
-    repeat roots `tab	here`,
-    u8x len,
-    u8x ``,
-    @lengthOf(o)
-    @tag(0)
-    repeat char[] options1,
-    int32 o `" ++ [233]%N ++ runes_of_ascii "`,
-    @tag(00)
-    uint16 int,
-}
-
-packet BodyLength {
-    @tag(4294967296)
-    repeat zchar[1] Z9_,
-    uint32 leftPad @calculatedFrom(""" ++ [28040; 24687]%N ++ runes_of_ascii """),
-    i8 f32a,
-    repeat u8 lengthOf,
-    Header {
-        leftPad,
-        repeat stringy {
-            msg_type @lengthOf(body) `crlf
-            line`,
-            repeat packetx `say ""hi""`,
-            o,
-        },
-    },
-    repeat int8 f32a `{ , }`,
-    Z9_,
-    body,
-    match tag as zchar {
-        10 : lengthOf,
-        10 : i64_,
-        65535 : len,
-        1 : msg_type,
-        ""\n"" : Foo,
-        10 : zchar,
-    },
-    repeat lengthOf {
-        // `tick` ""quote"" 'q'
-        int64 lengthOf @calculatedFrom(""packet""),
-        repeat calculatedFrom A,
-        repeat char uint8x,
-        As {
-            stringy `it's`,
-        },
-    },
-}")).
-Eval vm_compute in ("<<<M749>>>" ++ check (runes_of_ascii "root packet chars	{ @tag( 1) zchar[ 0123456789
-    ] MetaDataX,f32 Packet
-//x
-/// triple
-, @rightPad // a // b
-(	' ' ) repeat chars {o stringy	`crlf
-line`
-    , matchKey int ,},} packet
-// trailing space 
-//
-uint8x {
-match stringy  as
-    len
-{  ""CRC32"" : trueish // c
-, [ 3 ,	42]  :
-x_y_z	""CRC32"" : leftPad	,// " ++ [128512]%N ++ runes_of_ascii " emoji
-[ 3
-,
-42, ""a\\"", ""1""	,""it's""	, 255 ,  ""CRC32""
-,
-    0123456789 ] // c
-:
-    uint8x ,
-    //	t
-    [ 42,// " ++ [128512]%N ++ runes_of_ascii " emoji
-""a	b"" ,7 ,
-    65535
-    , 42 ,
-"""",""""
-    ]: x_y_z },
-    repeat
-    trueish
-    { repeat As	`u8 x,`, } ,repeat chars `two words`
-, @rightPad  ( '\x00' ) repeat
-    f64 _x `" ++ [233]%N ++ runes_of_ascii "`  , repeat i16 //
-u `say ""hi""` , // c
-@lengthOf(
-x
-) i8i8{ match
-options1	as a1 { 1 : u128 , }, }
-    , string
-    chars, repeat char[] Logon `it's` ,u8
-float @lengthOf(
-/// triple
-// c
-o ) `{ , }`,
-@lengthOf(int	)@tag(	1)
-asx
-    // `tick` ""quote"" 'q'
-    @calculatedFrom(""\" ++ [233]%N ++ runes_of_ascii """) , // `tick` ""quote"" 'q'
-}
-")).
-Eval vm_compute in ("<<<M1132>>>" ++ check (runes_of_ascii "packet charz { zchar @lengthOf( body) , string
-    BodyLength``
-,
-    float
-`" ++ [233]%N ++ runes_of_ascii "` , @lengthOf( len ) @tag(
-    255
-)@calculatedFrom(	""{,}"" )a1 int `two words` //x
-,
-char[3 ] float @calculatedFrom( ""CRC32"" )  , repeat int32 stringy
-, //
-@tag( 3 )  @tag( 3
-    ) a1
-{ match chars as //x
-roots {
-""it's""  : o
-    ""CRC32"" : stringy ,	0123456789 :Pad ,[
-""a	b"" , """ ++ [128512]%N ++ runes_of_ascii """ ] :
-body // c
-, }, char[ /// triple
-42	] u8x ,char[ 255
-// " ++ [27880; 37322]%N ++ runes_of_ascii "
+Eval vm_compute in ("<<<M273>>>" ++ check (runes_of_ascii "root packet T // trailing space 
+{
 //	t
-]
-x_y_z
-@calculatedFrom( ""packet""
-    )
-    ,
-    match body
-as BodyLength
-    { 10
-: zchar,007 :uint8x
-, ""a\""b"" :
-Header,
-""x y"" :chars	007 : f32a //	t
-,} ,
-} , match
-    T	as // trailing space 
-stringy{
-10 :float ,
-    // trailing space 
-    0
-: string_ 10 : crc,
-7 : chars ,7  : body ,	}
-, repeat crc
-`
-` , } MetaData roots {	char[]  string_  `{ , }`,} root packet As {
-    @rightPad	( ' ' ) i64 leftPad @calculatedFrom(  ""abc"" )	`doc` , char[]options1 ,}
-")).
-Eval vm_compute in ("<<<M974>>>" ++ check (runes_of_ascii "packet len { repeat char[ 0 ]
-leftPad`{ , }` ,
-@calculatedFrom( ""abc"" )  zchar[	65535
-    ]Z9_ @lengthOf( tag)
-`tab	here` , match
-u128 as packetx { [ ""it's"" ,
-""\" ++ [233]%N ++ runes_of_ascii """
-    ]:o , ""\n""
-:
-    int  ""a\""b"" // a // b
-: As,
-""{,}"" : chars
-42 : T""1"" : packetx /// triple
-,}, x Pad
-    , int8 Pad
-`a\` ,
-chars a1
-    , char[ 0 ]
-Z9_@calculatedFrom( ""// no comment"" )
-    `" ++ [28040; 24687; 31867; 22411]%N ++ runes_of_ascii "`  ,  }
-    packet x_y_z	{ repeat
-    //	t
-    stringy x_y_z , }root
-packet charz { } // " ++ [128512]%N ++ runes_of_ascii " emoji
-root packet	x{ _x msg_type
-,@tag(
-    0123456789
-) i64  body
-    `two words`
-, @rightPad (
-    // a // b
-    '\x00'
-    )
-@lengthOf(charz)
-//x
-// @lengthOf(
-zchar[
-    0123456789 ] stringy,repeat Packet
-    stringy , repeat A`tab	here` ,	@tag( 0)
-match asx as Pad {	[
-3,
-""" ++ [233]%N ++ runes_of_ascii "t" ++ [233]%N ++ runes_of_ascii """ , ""\n"" ,"""",
-    1
-, 1
-]: Packet 42
-    // c
-    : roots //	t
-},} options	{float
-    = true ;	} /// triple")).
-Eval vm_compute in ("<<<M759>>>" ++ check (runes_of_ascii "// @lengthOf(
-MetaData
-uint8x{ char[	42
-] packetx
-    ,} packet
-len {
-}MetaData	Logon
-{
-    matchKey u128 `
-`
-,
-    string
-MetaDataX`" ++ [233]%N ++ runes_of_ascii "` , }	MetaData
 //
-//	t
-rootA {
-u32 i8i8 , }
-root packet i64_// `tick` ""quote"" 'q'
-{ u32
-    calculatedFrom
-// trailing space 
-/// triple
-,	@tag(10)@rightPad
-    ( ) @leftPad(
-' ' ) uint16
-// c
-// " ++ [128512]%N ++ runes_of_ascii " emoji
-rootA ,
-@lengthOf(
-    //x
-    Pad
-)
-    pack @calculatedFrom(	""x y"") `it's`
-    , uint8 matchKey ,@tag(
-1 // " ++ [128512]%N ++ runes_of_ascii " emoji
-) match Pad as  calculatedFrom
-    {
-[ ""\n"" ,
-7,  1 , """ ++ [233]%N ++ runes_of_ascii "t" ++ [233]%N ++ runes_of_ascii """ ] :len
-    00:Packet, } ,@lengthOf( string_
-    // @lengthOf(
-    )match matchKey as MetaDataX {
-[ ""`tick`""
-, 42 ,
-""x y"" ,
-""" ++ [233]%N ++ runes_of_ascii "t" ++ [233]%N ++ runes_of_ascii """ ,
-4294967296 ]
-    : o // packet A { u8 x, }
-,
-}
-    , uint8
-charz
-    @calculatedFrom( ""a	b"") ,
-    @calculatedFrom( ""a\""b"") repeat
-    u8x {pack , } ,
-}
-")).
-Eval vm_compute in ("<<<M85>>>" ++ check (runes_of_ascii "packet chars
-{}// c
-packet
-len
+@rightPad( // " ++ [27880; 37322]%N ++ runes_of_ascii "
+'\x00'
+    ) repeat metadata {repeat
+    i64 Z9_ , }
+    , } options {_x = char[] ; tag
+    =
+    // packet A { u8 x, }
+    uint32 calculatedFrom	=u16;  } packet // c
+packetx { @leftPad /// triple
+(' '	) int trueish , packetx
 {
-    repeat char[] Foo
-, @rightPad ('0' ) zchar[ 007 ]/// triple
-a1`say ""hi""` , repeat BodyLength  leftPad ,}
-root	packet u8x { f64 lengthOf
-    @calculatedFrom(
-""CRC32""	)
-    ,
-    string
-zchar @lengthOf( int)
-    `crlf
-line` , int calculatedFrom , @lengthOf(As ) match falsey as asx {
-65535: _x
-    [ 1 ] :
-    u 007:	uint8x
-00:	f32a
-, """ ++ [233]%N ++ runes_of_ascii "t" ++ [233]%N ++ runes_of_ascii """ :	Packet ,[ 42 ,""a\""b"" ] : len
-    //x
-    , } , @lengthOf(stringy
-    // " ++ [128512]%N ++ runes_of_ascii " emoji
-    )@calculatedFrom(  ""1"" )repeat A { char[]lengthOf  `it's` , }
-, _x `" ++ [28040; 24687; 31867; 22411]%N ++ runes_of_ascii "` ,
-    @leftPad ('0'
-    ) match Foo as
-crc {10 :
-    trueish
-// " ++ [27880; 37322]%N ++ runes_of_ascii "
-//
-, 42
-:// " ++ [128512]%N ++ runes_of_ascii " emoji
-Pad
-, [4294967296
-,  ""// no comment"" , ""{,}"" ]:
-float
-    ,  } , @lengthOf( u8x ) a1
-// c
-// trailing space 
-@calculatedFrom( ""\" ++ [233]%N ++ runes_of_ascii """ ) // c
-,} 	 ")).
-Eval vm_compute in ("<<<M0>>>" ++ check (runes_of_ascii "packet body{ @tag( 0123456789 )repeatCount { // @lengthOf(
-i32
-roots	@calculatedFrom( ""it's""
-    )
+    leftPad	@lengthOf( //	t
+string_ )
+    , // `tick` ""quote"" 'q'
+repeat o	string_	,  match // " ++ [27880; 37322]%N ++ runes_of_ascii "
+stringy as packetx{ 0 :// `tick` ""quote"" 'q'
+pack,
+    // @lengthOf(
+    ""CRC32""	:tag ,
     // trailing space 
-    ,
-    char[]repeatCount @calculatedFrom(
-""packet"" ) `two words` // " ++ [128512]%N ++ runes_of_ascii " emoji
-,repeat u16 roots , match lengthOf as As //	t
-{ [ ""packet"" ,""" ++ [28040; 24687]%N ++ runes_of_ascii """,	255
-, 42 ,""\" ++ [233]%N ++ runes_of_ascii """ ] : x_y_z ,
-    } , } , trueish ,@tag( 65535 )
-@tag( 255  ) /// triple
-@tag(00) chars @calculatedFrom(""it's"" ) ,	match o as
-    // `tick` ""quote"" 'q'
-    roots {
-// " ++ [27880; 37322]%N ++ runes_of_ascii "
-// c
-""{,}""
-: options1 , """ ++ [28040; 24687]%N ++ runes_of_ascii """
-    :	lengthOf	, 00: pack  ,[ ""a\""b"" ] :
-    msg_type ,1 : i8i8
-, [ 10  , 3 ,"""" ] : falsey ,} , }
-root packet// `tick` ""quote"" 'q'
-Z9_ {repeat char[] // a // b
-Packet	, string chars@calculatedFrom( ""a\""b"" )
-`// not a comment`
-    // " ++ [128512]%N ++ runes_of_ascii " emoji
-    ,	}
-")).
-Eval vm_compute in ("<<<M2>>>" ++ check (runes_of_ascii "
-packet int{ len	T , }MetaData trueish { // packet A { u8 x, }
-}
-    packet BodyLength { @calculatedFrom( ""packet"" )
-@calculatedFrom(
-    ""CRC32"" )
-    // c
-    @tag(
-00 ) char[ 4294967296 ] stringy, @lengthOf(
-leftPad
-)// c
-char zchar ,@lengthOf( MetaDataX	)@tag(10) // " ++ [128512]%N ++ runes_of_ascii " emoji
-@rightPad ( '0') options1 matchKey//
-`{ , }`
-    // packet A { u8 x, }
-    , @tag( 42
-    ) @tag( 1 ) @tag( 10
-) char[] // c
-stringy
-`doc` , msg_type `" ++ [233]%N ++ runes_of_ascii "` ,
-@lengthOf(trueish )body {	repeat o stringy `crlf
-line` , repeat u32 i8i8 ,
-    char[65535] stringy
-`a\` ,
-    //x
-    }
-    ,
-@calculatedFrom(""packet""	) matchKey/// triple
-, @tag( 4294967296 ) uint32 rootA @lengthOf( trueish ) ,string body `u8 x,` , }")).
-Eval vm_compute in ("<<<M28>>>" ++ check (runes_of_ascii "root
-// c
-// packet A { u8 x, }
-packet
-    // packet A { u8 x, }
-    f32a {@rightPad ()// packet A { u8 x, }
-options1 ,uint64
-    MetaDataX ,
-x_y_z `two words` ,
-// packet A { u8 x, }
-// trailing space 
-i8i8
-    `" ++ [28040; 24687; 31867; 22411]%N ++ runes_of_ascii "` ,int16 f32a@lengthOf( zchar	) ,}
-//x
-//x
-root
-    packet u8x { @rightPad	(
-' ' ) repeat a1
-    { repeat string_ stringy  ,
-    } , stringy// `tick` ""quote"" 'q'
-a1
-`// not a comment` ,
-@tag(	4294967296 ) float64 o, @lengthOf(a1 )
-repeat string_ {
-    // `tick` ""quote"" 'q'
-    match BodyLength// trailing space 
-as int {65535:u
-, } , pack
-    options1`a\` ,
-repeat lengthOf	matchKey , }
-    , repeat
-char[65535 ] BodyLength
-    , }
-")).
-Eval vm_compute in ("<<<M3543>>>" ++ check (runes_of_ascii "packet Sub // c1a
-  // c1b
-{
-    // c2
-u8 // c3
-a
-    // c4
-, // c5a
-  // c5b
-u32
-    // c6
-SubSum // c7a
-  // c7b
-@calculatedFrom( // c8a
-  // c8b
-""CRC16"" ) // c10a
-  // c10b
-, } // c12a
-  // c12b
-root
-    // c13
-packet // c14
-Frame // c15
-{ // c16a
-  // c16b
-u16
-    // c17
-MsgType // c18
-, u16 BodyLen @lengthOf( // c22
-Body // c23
-)
-    // c24
-, // c25
-Sub
-    // c26
-Body // c27a
-  // c27b
-, // c28a
-  // c28b
-string
-    // c29
-note , u32 Checksum // c33a
-  // c33b
-@calculatedFrom( // c34a
-  // c34b
-""CRC16"" ) // c36a
-  // c36b
-, // c37a
-  // c37b
-u8
-    // c38
-tail // c39a
-  // c39b
-,
-    // c40
-} // c41a
-  // c41b
-")).
-Eval vm_compute in ("<<<M1278>>>" ++ check (runes_of_ascii "MetaData
-o
-{
-uint8 asx ,// " ++ [27880; 37322]%N ++ runes_of_ascii "
-}
-MetaData _x { A Z9_
-`a\` , } packet string_
-{ repeat
-x_y_z f32a,
-charz
-//x
-// " ++ [27880; 37322]%N ++ runes_of_ascii "
-{ msg_type @lengthOf( A
-)
-    ,} ,
-uint16
-stringy, @calculatedFrom(
-""" ++ [233]%N ++ runes_of_ascii "t" ++ [233]%N ++ runes_of_ascii """)	leftPad msg_type , @tag(
-7 ) @calculatedFrom(
-    //	t
-    """ ++ [28040; 24687]%N ++ runes_of_ascii """)
-    i64_ , repeat trueish
-x	`doc`  ,uint16 metadata//	t
-@lengthOf(
-i8i8 )`tab	here` ,repeat tag Logon , repeat repeatCount metadata
-`` // a // b
-, // trailing space 
-} packet roots
-{
-repeat x_y_z  {
-    // `tick` ""quote"" 'q'
-    char[4294967296] stringy`line1
-line2`
-,uint16
-    body
-    , }, @leftPad (' ')
-    MetaDataX
-stringy
-,}
-")).
-Eval vm_compute in ("<<<M4345>>>" ++ check (runes_of_ascii "MetaData Header {
-}
-
-root packet chars {
-    char[00] MetaDataX `u8 x,`,
-    repeat Foo stringy,
-    @lengthOf(u8x)
-    char[] Foo,
-    match Header as leftPad {
-        [255, ""abc"", """ ++ [128512]%N ++ runes_of_ascii """, """"] : charz,
-        007 : uint8x,
-        0 : asx,
-        """" : MetaDataX,
-    },
-    char[] uint8x,
-    @tag(1)
-    i8i8 {
-        x Packet `doc`,
-        zchar[4294967296] metadata @calculatedFrom(""a\\"") `" ++ [233]%N ++ runes_of_ascii "`,
-        zchar[10] crc @lengthOf(Foo) `crlf
-        line`,
-    },
-}
-
-MetaData msg_type {
-    char[] calculatedFrom `line1
-    line2`,
-}// `tick` ""quote"" 'q'")).
-Eval vm_compute in ("<<<M3855>>>" ++ check (runes_of_ascii "  packet
-	x
-    {
-
-repeat	float32 Foo`{ , }`,float64
-
-    i8i8  ,
-	@lengthOf( chars 
-  // @lengthOf(
-  ) @tag(
-
-    65535 
-)
-    // @lengthOf(
-	string_  ,
-
-@leftPad (	'0') repeat
-    A
-
-charz 
-, } 
-root packet
+    """ ++ [128512]%N ++ runes_of_ascii """:
+    Z9_	4294967296 :  chars//x
+,007 : calculatedFrom ,10
+    : u8x , }
+    , } // " ++ [27880; 37322]%N ++ runes_of_ascii "
+, repeat BodyLength{ //	t
+repeat char[ 3 ]	metadata `a\` ,  repeat char
+pack`a\` , char
 Header
-
-    { 
+    //	t
+    @calculatedFrom(
+""// no comment"")
+    ,
+    uint32 roots
+    @lengthOf( i64_ ) ,
+    }
+    ,
+// a // b
+// trailing space 
+pack , repeat len Header `
+` ,	f64	f32a, char[] x,
+    Header @lengthOf(a1	) , asx
+@lengthOf( calculatedFrom	) ,  } MetaData roots {
+options1 As// a // b
+, string_
+// `tick` ""quote"" 'q'
+// c
+float
+`{ , }`
+/// triple
+// packet A { u8 x, }
+, // trailing space 
+} 	 ")).
+Eval vm_compute in ("<<<M276>>>" ++ check (runes_of_ascii "
+packet body {match u as f32a {  ""// no comment""	:
+    float ,}	,
+    // trailing space 
+    float32 int ,
+    char[]tag `u8 x,`
+    // packet A { u8 x, }
+    , @lengthOf( body ) repeat // " ++ [27880; 37322]%N ++ runes_of_ascii "
+i64_ crc
+,@leftPad ('0' ) float64 zchar
+    , // packet A { u8 x, }
+@lengthOf( A)
+@leftPad  ( ) @lengthOf( int
+)
+    //
+    crc	@calculatedFrom( ""1"") ,
+    }  root packet
+    body{
+    /// triple
+    @lengthOf( T
+    ) repeat
+u128 `line1
+line2` ,
+string // `tick` ""quote"" 'q'
+BodyLength , @calculatedFrom( ""x y"" ) char[] zchar @calculatedFrom(
+    ""a\""b"")	`" ++ [28040; 24687; 31867; 22411]%N ++ runes_of_ascii "` //x
+, falsey//	t
+trueish	, /// triple
+@rightPad // @lengthOf(
+( '\x00'  )	@lengthOf( As) @tag( 4294967296  )repeat char[] uint8x , packetx,
+    @tag(
+7 )
+    //
+    i64 roots
+// `tick` ""quote"" 'q'
+// " ++ [27880; 37322]%N ++ runes_of_ascii "
+@calculatedFrom( """ ++ [233]%N ++ runes_of_ascii "t" ++ [233]%N ++ runes_of_ascii """
+)  `// not a comment`
+    , @calculatedFrom( ""x y"" )
+    /// triple
+    f64 float@lengthOf(
+    Packet // " ++ [27880; 37322]%N ++ runes_of_ascii "
+), @tag(  4294967296 ) u32
+lengthOf@calculatedFrom(""\" ++ [233]%N ++ runes_of_ascii """)// c
+, @tag(	10 ) Foo ,
+}	packet leftPad { } options {i8i8 =zchar[ 7 ]}")).
+Eval vm_compute in ("<<<M391>>>" ++ check (runes_of_ascii "packet body{ }root packet  x { @rightPad
+/// triple
+// @lengthOf(
+(  '\x00' ) charz // c
+`tab	here`	, @calculatedFrom( ""\" ++ [233]%N ++ runes_of_ascii """
+    ) // a // b
+u128 , }packet trueish // " ++ [128512]%N ++ runes_of_ascii " emoji
+{  match leftPad as u { // packet A { u8 x, }
+""1"" :
+float , 007: Packet
+, 65535
+// `tick` ""quote"" 'q'
+//
+:  _x 0123456789 : //x
+charz ,
+""" ++ [233]%N ++ runes_of_ascii "t" ++ [233]%N ++ runes_of_ascii """	: f32a  , ""abc"" : BodyLength ,} ,
+repeat char T
+,
+    @tag(
+    // trailing space 
+    42 ) @tag(// packet A { u8 x, }
+4294967296// @lengthOf(
+)
+@rightPad // @lengthOf(
+('0' )repeat // c
+int64 zchar
+//	t
+// `tick` ""quote"" 'q'
+, }root packet Packet{
+repeat	_x {
+trueish
+/// triple
+// a // b
+Foo ,} , @rightPad( '\x00' )int64 x_y_z @lengthOf(
+    rootA )`
+`
+, @tag(
+// @lengthOf(
+// " ++ [27880; 37322]%N ++ runes_of_ascii "
+4294967296
+    ) //	t
+match
+pack	as pack
+{ 007  :Logon, [42
+    ] :metadata
+    4294967296 : rootA
+// a // b
+//x
+""1"" // c
+: uint8x
+, } , i8i8
+{ i16 stringy `crlf
+line` ,
+    // trailing space 
+    Pad x_y_z , u16 Packet @calculatedFrom( """"
+)
+, } , // c
+} /// triple")).
+Eval vm_compute in ("<<<M301>>>" ++ check (runes_of_ascii "root  packet
+    MetaDataX { } options
+    {
+matchKey
+= ""abc""
+;i64_ =// a // b
+7 ; len  = 1 x_y_z =//x
+'0' ; } options { A
+    = 7 len
+// a // b
+//x
+=	zchar[4294967296 ]	;o
+    = string ;
+    int = false f32a = // trailing space 
+""CRC32"" ;} root
+    packet crc
+    // " ++ [27880; 37322]%N ++ runes_of_ascii "
+    { char[]
+string_
+    ,match i8i8 // c
+as tag { //x
+3 :packetx } ,  @rightPad(' '	)  repeat _x
+// packet A { u8 x, }
+//x
+{ a1
+trueish `// not a comment` , }	, int16// packet A { u8 x, }
+Z9_ ,@lengthOf( uint8x
+    // @lengthOf(
+    )
+// `tick` ""quote"" 'q'
+// `tick` ""quote"" 'q'
+zchar[
+    // " ++ [128512]%N ++ runes_of_ascii " emoji
+    4294967296  ]A
+@lengthOf( i64_  ) //	t
+`two words` ,repeat // " ++ [27880; 37322]%N ++ runes_of_ascii "
+uint64 metadata
+,
 @calculatedFrom(
+""packet"" ) string
+//x
+//	t
+x
+`it's`
+, match	T
+as asx
+// " ++ [27880; 37322]%N ++ runes_of_ascii "
+//	t
+{ ""abc"" : A , ""it's""
+:
+    Logon, }  ,// packet A { u8 x, }
+@calculatedFrom(
+//
+// a // b
+""\n"" ) string _x , uint64 zchar @lengthOf(
+lengthOf
+) , } packet
+uint8x { } // a // b")).
+Eval vm_compute in ("<<<M4341>>>" ++ check (runes_of_ascii "  MetaData i8i8
+    {A	u128
+	,
 
-    ""// no comment""  ) 
-repeat metadata
-	{ repeat
+    }/// triple
+  	packet 
+tag
+{
+repeat
+    string_ 
+falsey
 
-u64 o 	 // c
+    `doc`,
+repeat	Z9_ 
+{  Header
+Logon
+`doc` 	 // packet A { u8 x, }
+    ,
+	int16
+
+    uint8x // `tick` ""quote"" 'q'
+@lengthOf(
+	body
+	)
+, 
+char[]
+lengthOf
+,}
+	, 
+@lengthOf( asx
+
+) repeat matchKey  ,  @leftPad
+    (
+' ' ) @rightPad (
+    // " ++ [128512]%N ++ runes_of_ascii " emoji
+  // " ++ [27880; 37322]%N ++ runes_of_ascii "
+
+' '
+
+)
+Z9_`{ , }`,	char[
+1
+
+    ]
+	len
+
+    `{ , }`	,} 	 // trailing space 
+  options{ chars
+
+    =
+""1""
+	trueish // c
+    	=	// " ++ [27880; 37322]%N ++ runes_of_ascii "
+""a	b""u 
+=
+true
+; 
+crc 
+='0'
+    ;}
+
+packet  leftPad 
+{ @leftPad (
+
+' '
+)  // packet A { u8 x, }
+  zchar
+i64_ , match options1 as // c
+    string_
+
+    {
+[
+
+""a\""b""
 
 ,
-    T
+	""packet""  ,
+    ""a\\""	, 
+""" ++ [128512]%N ++ runes_of_ascii """	]	:
+i64_ ,42 	 /// triple
+:  Z9_ ,	} ,
+    zchar[ 00
 
-    ``  //	t
-	, 
-}
-	, 
-}	MetaData
-	A
+] trueish
+	,
+    @rightPad	// trailing space 
+    (
 
-{ zchar[	// a // b
+    ' '
+) packetx
 
-4294967296 ]
-asx	,
-	int8 
-pack ,
-char[
-//
-  65535 ]
-    Packet
-	, 
-uint8
-lengthOf
-`" ++ [28040; 24687; 31867; 22411]%N ++ runes_of_ascii "` ,
-	char[
+options1
 
-10  // @lengthOf(
-  ]i64_ `" ++ [233]%N ++ runes_of_ascii "`,
-
+    `line1
+line2`  ,  }//
+ 
+")).
+Eval vm_compute in ("<<<M1290>>>" ++ check (runes_of_ascii "  packet len//	t
+{ @tag(255
+// packet A { u8 x, }
+// trailing space 
+) chars leftPad  ,
+repeat char[ 0123456789 ] o
+// `tick` ""quote"" 'q'
+// trailing space 
+`{ , }`  , falsey { f32a @lengthOf(metadata
+    ) `// not a comment`, //	t
+match pack // trailing space 
+as//	t
+asx{
+10	:	u128 ,
+} , } ,body Logon ,@calculatedFrom(""\" ++ [233]%N ++ runes_of_ascii """ ) u32 tag@lengthOf(
+uint8x ) `crlf
+line` ,  uint8x { zchar[ 10
+    ]  packetx @lengthOf(
+    pack// @lengthOf(
+) ,
+char[	4294967296]// trailing space 
+msg_type, }
+,
+string float `it's`	, @tag(0)
+    @tag( 42 ) u128 {repeat char[]
+BodyLength
+,match As as Logon{	[7
+// c
+//x
+, 1  , ""// no comment"", 00 // `tick` ""quote"" 'q'
+, """" , 0123456789 ]
+:	body , """ ++ [128512]%N ++ runes_of_ascii """ : Packet
+    , 42 :
+    u ""1""	: chars,
+} , }
+    , //	t
+repeat zchar[42	]u , }
+    //	t
+    packet stringy { body x,	} // trailing space ")).
+Eval vm_compute in ("<<<M465>>>" ++ check (runes_of_ascii "root
+packet rootA { repeat
+//x
+// c
+uint32 charz , }
+packet Packet{
+falsey
+    charz
+    `say ""hi""`,
+    // packet A { u8 x, }
+    @tag( 7) BodyLength@calculatedFrom(""a\""b"" )
+`line1
+line2`, } root
+    packet u //x
+{
+zchar[ 0 ]msg_type @calculatedFrom(""CRC32"") `tab	here` ,}packet	tag {
+@lengthOf(	A)match x //	t
+as roots  {
+// `tick` ""quote"" 'q'
+// c
+"""" : tag
+, 00 //x
+: packetx, 007  :
+    body """ ++ [28040; 24687]%N ++ runes_of_ascii """
+: trueish , 0
+:  lengthOf
+,
+} , crc ,
+string Packet , Pad@calculatedFrom(""a\""b"" )
+, repeat Pad
+    {
+match a1 as trueish
+    { 00 :
+trueish 7:	calculatedFrom , // c
+[	""""
+]	: BodyLength
+,[7] :BodyLength , 3 :
+i64_
+0 :Pad
+, }	,}
+// " ++ [27880; 37322]%N ++ runes_of_ascii "
+// a // b
+, //	t
+string T
+`line1
+line2` , @rightPad
+    ( ' '
+) rootA {	string
+    x `doc`,char[
+    0 ]Packet @calculatedFrom(""abc"" ),
     }
+    ,
+}")).
+Eval vm_compute in ("<<<M479>>>" ++ check (runes_of_ascii "packet // " ++ [128512]%N ++ runes_of_ascii " emoji
+BodyLength { zchar[
+10 ] x
+    @calculatedFrom( """" ) ,  @lengthOf(
+    string_
+    )metadata
+, @lengthOf(	trueish
+) repeat
+chars { zchar[ 00 ]T @calculatedFrom(
+    ""a	b"" ) `crlf
+line` ,
+char[// @lengthOf(
+0
+]
+chars	, }
+    , uint8
+    // a // b
+    rootA
+@lengthOf( int) , @lengthOf( packetx
+) char[	007 ]
+uint8x @calculatedFrom( ""\" ++ [233]%N ++ runes_of_ascii """
+) ,
+    u
+{ char[] Pad @calculatedFrom(
+""\n"" ) , }, char[
+    10 ]
+pack
+@lengthOf(
+_x //	t
+)`two words`
+, char[]
+    Logon	@lengthOf(body
+    ) , @lengthOf(matchKey )
+    chars { uint16  pack ,  char[ 4294967296]
+// trailing space 
+/// triple
+options1@calculatedFrom( ""CRC32"") // packet A { u8 x, }
+, u32 i64_
+`say ""hi""`, lengthOf `// not a comment`  ,
+    } , options1 @lengthOf( x
+) , }
+")).
+Eval vm_compute in ("<<<M292>>>" ++ check (runes_of_ascii "packet tag	{/// triple
+@leftPad (  '\x00' )char[ 10 ]
+//	t
+// a // b
+calculatedFrom , @calculatedFrom( ""a\\"")
+    char[ // " ++ [128512]%N ++ runes_of_ascii " emoji
+65535 ] BodyLength
+,
+match i8i8 as repeatCount  { ""{,}"" : asx
+""" ++ [233]%N ++ runes_of_ascii "t" ++ [233]%N ++ runes_of_ascii """ : lengthOf/// triple
+,  [
+    10 ,""""
+    ] : crc } , @tag( // trailing space 
+10 ) match chars
+as
+    // " ++ [128512]%N ++ runes_of_ascii " emoji
+    Logon {0:
+crc ,	[ """ ++ [128512]%N ++ runes_of_ascii """  ,
+//x
+// " ++ [128512]%N ++ runes_of_ascii " emoji
+255, ""a\\"" ]:len
+    ,
+// @lengthOf(
+// " ++ [27880; 37322]%N ++ runes_of_ascii "
+} ,
+@calculatedFrom(  ""`tick`""
+    ) @calculatedFrom(""\" ++ [233]%N ++ runes_of_ascii """  ) o matchKey `crlf
+line`  ,
+@calculatedFrom( """ ++ [28040; 24687]%N ++ runes_of_ascii """ ) @lengthOf(leftPad/// triple
+)// packet A { u8 x, }
+@rightPad  (
+'0' ) char[] float@calculatedFrom( ""it's"" )
+    ,@rightPad
+(
+    '0' ) crc x
+    , Foo T ,// @lengthOf(
+zchar[  00 ] charz @lengthOf( tag )
+, }")).
+Eval vm_compute in ("<<<M230>>>" ++ check (runes_of_ascii "//x
+root packet Z9_ { @calculatedFrom( ""a\\"")zchar[ 1] // @lengthOf(
+a1 @lengthOf(
+Z9_) ,
+@tag( 0123456789
+    )@lengthOf(
+Header ) @tag( 4294967296 ) uint8 u128  ,i16 msg_type// trailing space 
+, tag matchKey, repeat i8 options1 `tab	here` , repeat /// triple
+f32a Z9_,
+/// triple
+//	t
+match tag as Foo { 42 : Logon ,
+    [ 4294967296
+    ] : Pad , 3 :a1 , [007	, 1 ]
+: a1 ,}
+    ,// packet A { u8 x, }
+repeat zchar { repeat //
+u8 options1 // c
+, leftPad
+{	msg_type ,
+} ,
+leftPad@lengthOf( string_
+)
+    `a\` ,
+    }, zchar charz , string tag @calculatedFrom(
+""{,}"")
+, // " ++ [27880; 37322]%N ++ runes_of_ascii "
+}
+    packet// @lengthOf(
+u128 {@tag(// " ++ [27880; 37322]%N ++ runes_of_ascii "
+4294967296 ) @tag( 42
+) f32a @lengthOf( float )
+    `" ++ [233]%N ++ runes_of_ascii "` ,	}
+")).
+Eval vm_compute in ("<<<M3724>>>" ++ check (runes_of_ascii "root packet _x {
+    //	t
+    uint16 _x,
+    @tag(7)
+    repeat uint32 crc `line1
+        line2`,
+    match stringy as packetx {
+        255 : len,
+        255 : A,
+        1 : Z9_,
+        ""it's"" : body,
+        [""{,}"", ""packet"", 0, ""\n""] : x,
+    },
+    repeat uint32 Logon `tab	here`,
+}
+
+packet string_ {
+    string asx @lengthOf(float),
+    @calculatedFrom(""a\\"")
+    match chars as x {
+        42 : A,
+        """ ++ [28040; 24687]%N ++ runes_of_ascii """ : T,
+        ""a\\"" : tag,
+        3 : i8i8,
+        [255] : MetaDataX,
+    },
+    float64 zchar,
+    @lengthOf(calculatedFrom)
+    int falsey,
+    i16 Packet @calculatedFrom(""// no comment"") `say ""hi""`,
+    @lengthOf(rootA)
+    trueish,
+}")).
+Eval vm_compute in ("<<<M4103>>>" ++ check (runes_of_ascii "  root	packet 
+zchar
+	{ @rightPad( )repeat  uint32 Pad
+
+, 
+  // a // b
+    // c
+char[4294967296]
+
+    f32a@calculatedFrom(
+"""" )  `u8 x,` , 
+uint16
+
+BodyLength	@lengthOf(
+packetx
+
+    )
+
+`it's`
+
+, @calculatedFrom(
+
+    ""a\\""
+) string
+
+    falsey// c
+`a\`
+,
+
+matchKey
+
+    Packet
+`it's`
+,
+	match
+
+    trueish
+    as matchKey{	""\n"" : trueish [	""\n""	,	3
+]  :
+    len
+,
+
+    [ 10] : Logon 	 // `tick` ""quote"" 'q'
+0123456789 :
+packetx
+,
+
+    ""it's""
+
+    :Pad,  42
+// @lengthOf(
+	// a // b
+  	: falsey
+,
+	}  ,
+match 
+metadata
+	as
+rootA
+{""" ++ [128512]%N ++ runes_of_ascii """ :Header
+	,
+	255 :
+
+T	,0123456789
+    : tag	,
+
+""x y""
+:
+
+MetaDataX ,
+
+} ,} ")).
+Eval vm_compute in ("<<<M1135>>>" ++ check (runes_of_ascii "packet falsey { @leftPad
+()
+zchar[ 1 ]f32a,	_x // a // b
+{ int32 u128 , rootA
+, } , @rightPad
+    ( '\x00' )
+    // " ++ [27880; 37322]%N ++ runes_of_ascii "
+    char matchKey	, @lengthOf( As )
+match pack as
+BodyLength
+    {
+    ""1""
+:tag,[ 65535 ]
+    :
+msg_type
+,
+    [ ""`tick`"" ]: falsey ,
+""// no comment"" : u128 ,} , // " ++ [128512]%N ++ runes_of_ascii " emoji
+match len  as Z9_ {[
+    ""a	b""
+    , 10  ]:
+    Foo, 255: int , 0123456789 : tag
+,
+1
+    /// triple
+    : metadata ,[
+00 ,
+4294967296 ,
+    """ ++ [28040; 24687]%N ++ runes_of_ascii """ ] : //	t
+roots ,
+    [ 42	,4294967296 ,
+10
+    , 00 , 4294967296	]
+: int  , } , @calculatedFrom( ""{,}""	)repeat _x // c
+{tag // a // b
+`doc` , }
+    ,
+    }
+")).
+Eval vm_compute in ("<<<M410>>>" ++ check (runes_of_ascii "packet // " ++ [128512]%N ++ runes_of_ascii " emoji
+u8x {
+    @rightPad (
+)
+@lengthOf( u128 )
+// a // b
+// a // b
+char[ 65535// packet A { u8 x, }
+] i8i8 `{ , }` ,	}
+    packet Packet {@lengthOf( Z9_ ) float32
+MetaDataX
+,
+@tag(
+3
+    )
+@calculatedFrom(
+""" ++ [233]%N ++ runes_of_ascii "t" ++ [233]%N ++ runes_of_ascii """
+    // packet A { u8 x, }
+    )
+@tag(0123456789 ) repeat
+// c
+// @lengthOf(
+_x// c
+i8i8
+`// not a comment` , @calculatedFrom("""") //	t
+MetaDataX
+    // @lengthOf(
+    @lengthOf( leftPad )
+`" ++ [233]%N ++ runes_of_ascii "` ,u32 A	,  }
+//x
+// packet A { u8 x, }
+MetaData
+    o
+//x
+// `tick` ""quote"" 'q'
+{ char[  4294967296 ]
+    // " ++ [27880; 37322]%N ++ runes_of_ascii "
+    falsey , A _x
+, }")).
+Eval vm_compute in ("<<<M208>>>" ++ check (runes_of_ascii "packet i64_
+    {} packet
+    crc {
+} options
+{ }root packet
+charz {} packet //
+trueish{ repeat char[
+    255] lengthOf `" ++ [28040; 24687; 31867; 22411]%N ++ runes_of_ascii "` , zchar[
+//	t
+/// triple
+00 // a // b
+]x`it's` ,/// triple
+repeat	char[]
+    // `tick` ""quote"" 'q'
+    Packet `say ""hi""` , @calculatedFrom(
+""x y"" // " ++ [27880; 37322]%N ++ runes_of_ascii "
+) char[ 1] lengthOf, lengthOf`crlf
+line` ,	match charz as MetaDataX { ""a	b""
+// " ++ [27880; 37322]%N ++ runes_of_ascii "
+// `tick` ""quote"" 'q'
+: uint8x
+    ""\n"" : calculatedFrom } , @tag(	10
+) float64 i8i8 @calculatedFrom( """ ++ [128512]%N ++ runes_of_ascii """ ) `say ""hi""` ,
+@rightPad(
+'\x00' )
+i32
+Foo`it's`	,
+}
 ")).
 Eval vm_compute in ("<<<M232>>>" ++ check (runes_of_ascii "packet
     string_ { match charz as  len {
@@ -1405,35 +1266,34 @@ Packet// packet A { u8 x, }
 f64 float	`it's`, packetx
 matchKey , }
 ")).
-Eval vm_compute in ("<<<M4266>>>" ++ check (runes_of_ascii "packet i64_ {
+Eval vm_compute in ("<<<M216>>>" ++ check (runes_of_ascii "packet repeatCount
+{ f64 // @lengthOf(
+_x
+@lengthOf( zchar
+) ,
+Z9_ , calculatedFrom @lengthOf(rootA
+)
+    `{ , }` ,} packet a1{
+    /// triple
+    chars
+@lengthOf(
+tag ), metadata
+    , }packet
+Packet
+    { //x
+@tag( 65535 )  @leftPad ( )@tag( 42)	char[ 0123456789]
+    /// triple
+    float @calculatedFrom(""CRC32"" )
+    `tab	here` , repeat int8 string_, u8
+x_y_z
+`crlf
+line`, // @lengthOf(
+@tag( 0123456789
+)zchar[
+1
+]	lengthOf @calculatedFrom( ""it's"" ) , // " ++ [27880; 37322]%N ++ runes_of_ascii "
 }
-
-packet crc {
-}
-
-options {
-}
-
-root packet charz {
-}
-
-packet trueish {
-    repeat char[255] lengthOf `" ++ [28040; 24687; 31867; 22411]%N ++ runes_of_ascii "`,
-    zchar[00] x `it's`,/// triple
-    repeat char[] Packet `say ""hi""`,
-    @calculatedFrom(""x y"")
-    char[1] lengthOf,
-    lengthOf `crlf
-    line`,
-    match charz as MetaDataX {
-        ""a	b"" : uint8x,
-        ""\n"" : calculatedFrom,
-    },
-    @tag(10)
-    float64 i8i8 @calculatedFrom(""" ++ [128512]%N ++ runes_of_ascii """) `say ""hi""`,
-    @rightPad('\x00')
-    i32 Foo `it's`,
-}")).
+")).
 Eval vm_compute in ("<<<M476>>>" ++ check (runes_of_ascii "options
     { chars =
 '\x00'
@@ -1460,293 +1320,333 @@ u
     msg_type) @lengthOf( Z9_
     )T stringy , }
 ")).
-Eval vm_compute in ("<<<M4347>>>" ++ check (runes_of_ascii "options {
-}// " ++ [27880; 37322]%N ++ runes_of_ascii "
-
-root packet leftPad {
-    match T as u8x {
-        // trailing space 
-        4294967296 : Logon,
-        ""1"" : i8i8,
-        0123456789 : tag,
-        ""a\""b"" : options1,
-        4294967296 : T,
-    },
-    repeat matchKey {
-        repeat string rootA,
-        repeat int64 zchar `
-        `,
-    },
-    i32 x_y_z,
-    zchar[007] packetx `it's`,
-    // a // b
-    // `tick` ""quote"" 'q'
-    repeat zchar[255] falsey,
-}// " ++ [27880; 37322]%N)).
-Eval vm_compute in ("<<<M716>>>" ++ check (runes_of_ascii "
-root packet Z9_ { asx
-// trailing space 
-//
-@lengthOf(u8x  )
-    `crlf
-line`
-    , i16 trueish `tab	here`  , i8 metadata , @calculatedFrom(
-""// no comment"" // a // b
-) Z9_ `tab	here`
-, @calculatedFrom( """" )	A x
-    ,
-    Logon Foo ,
-    repeat  zchar[	3
-]// `tick` ""quote"" 'q'
-pack , } MetaData u8x {} packet x_y_z
-    {
-    @rightPad ( ' ')
-    repeat
-    crc  asx /// triple
-, // " ++ [128512]%N ++ runes_of_ascii " emoji
-}
-    options {
-body =
-u32 ; }")).
-Eval vm_compute in ("<<<M1348>>>" ++ check (runes_of_ascii "MetaData
-asx {
-    //x
-    } packet falsey { @tag( 00 ) char[
-1 ] options1`crlf
-line`, // `tick` ""quote"" 'q'
-@tag( 3
-) asx {
-    Header @lengthOf( pack )
-    `say ""hi""` ,	match Pad as calculatedFrom
-    // " ++ [27880; 37322]%N ++ runes_of_ascii "
-    { ""{,}"" : string_[""x y"",	007 ]
-    :
-    msg_type ,
-    ""abc"" : string_ ,
-[
-// c
-/// triple
-42 , 1, ""// no comment"" , ""\" ++ [233]%N ++ runes_of_ascii """ ,
-""`tick`"", ""`tick`"" , ""a\""b""] : Packet ,
-    255 :options1},
-} , }
-")).
-Eval vm_compute in ("<<<M361>>>" ++ check (runes_of_ascii "// c
-packet float// `tick` ""quote"" 'q'
-{ match tag
-as	x // " ++ [128512]%N ++ runes_of_ascii " emoji
-{
-""\n"" :
-    // a // b
-    A ,
-} , @lengthOf(
-    o ) A  , char[ 4294967296 ] o @lengthOf( // packet A { u8 x, }
-a1 ) , }	packet x {
-    char[
-3 ] BodyLength
-, }
-packet Header { @lengthOf( stringy )
-@tag(42	)@calculatedFrom(""1"" ) zchar[ 0123456789 ] As
-@lengthOf(
-    // a // b
-    packetx ) `// not a comment` , } //	t")).
-Eval vm_compute in ("<<<M3947>>>" ++ check (runes_of_ascii "root packet Packet {
-    @calculatedFrom(""packet"")
-    char[] Packet,
-    match crc as T {
-        255 : A,
-    },
-    /// triple
-    // `tick` ""quote"" 'q'
-    repeat x_y_z,
-    x_y_z @calculatedFrom(""`tick`"") `a\`,
-    @calculatedFrom(""" ++ [28040; 24687]%N ++ runes_of_ascii """)
-    @lengthOf(Foo)
-    match MetaDataX as T {
-        0 : repeatCount,
-    },
-}
-
-MetaData string_ {
-    u64 x_y_z,
-}
-
-packet u {
-}")).
-Eval vm_compute in ("<<<M304>>>" ++ check (runes_of_ascii "
-MetaData
-a1 {
-u128// @lengthOf(
-As ,char[
-4294967296] lengthOf ,
-uint64 msg_type	, x_y_z f32a
-, float32	o // " ++ [27880; 37322]%N ++ runes_of_ascii "
-,	} options
+Eval vm_compute in ("<<<M692>>>" ++ check (runes_of_ascii "packet
+    // packet A { u8 x, }
+    chars {
+match tag as BodyLength{7 : roots ,""a\\"":
+    lengthOf
+    , ""1""	:	chars
+// " ++ [128512]%N ++ runes_of_ascii " emoji
 // " ++ [27880; 37322]%N ++ runes_of_ascii "
-// " ++ [128512]%N ++ runes_of_ascii " emoji
-{
-//x
-// @lengthOf(
-}MetaData string_
-    {
+, //	t
 }
-packet roots {
-repeat f32 As `" ++ [28040; 24687; 31867; 22411]%N ++ runes_of_ascii "` , } options {
-    // " ++ [128512]%N ++ runes_of_ascii " emoji
-    uint8x = ""a	b""Packet//
-=42
-;pack =
-    10
-    ;
-    tag= string	; repeatCount = // " ++ [27880; 37322]%N ++ runes_of_ascii "
-char[ 0	] ; }")).
-Eval vm_compute in ("<<<M647>>>" ++ check (runes_of_ascii "//x
-packet BodyLength { // a // b
-@tag( 10 //x
-) @calculatedFrom( ""1"" ) falsey
-uint8x
+    ,
+@leftPad
+( '\x00' )  _x@lengthOf( MetaDataX
+) ,  repeat
+x {
+    match Logon as options1
+{
+    //	t
+    3
+: Pad,
+    [""abc"" , // a // b
+7 , 3 ,  ""x y"" ] :
+o , [ 4294967296
+] : leftPad
+    /// triple
+    , """ ++ [28040; 24687]%N ++ runes_of_ascii """
+: Pad	,
+//
+//x
+},zchar[ 0123456789
+] leftPad, stringy T
 ,
-repeat trueish// trailing space 
-body ,	@leftPad ( '0' ) @calculatedFrom( """ ++ [28040; 24687]%N ++ runes_of_ascii """ )
-@calculatedFrom(
-""1""	) match falsey // packet A { u8 x, }
-as	matchKey
-{  ""x y"": As	, [ ""CRC32"" , 3]: Foo
-, """":roots /// triple
+    }, }
+options{ }")).
+Eval vm_compute in ("<<<M1110>>>" ++ check (runes_of_ascii "options{ //x
+}
+packet
+// " ++ [27880; 37322]%N ++ runes_of_ascii "
+//x
+crc { @rightPad ( ) // " ++ [128512]%N ++ runes_of_ascii " emoji
+match lengthOf as _x {
+    ""{,}"" :charz,//	t
+[ """ ++ [28040; 24687]%N ++ runes_of_ascii """
+, 255
+    //	t
+    ] : u8x ,[
+    // @lengthOf(
+    ""CRC32"" ,	65535 , ""it's"", """ ++ [128512]%N ++ runes_of_ascii """,	""it's""
+    , 3// c
 ,
-} // " ++ [27880; 37322]%N ++ runes_of_ascii "
-,string stringy
-    `{ , }`
+255 ]
+    :As , ""it's"" :
+    options1
+    ,
+3 :
+chars , 42  :
+    metadata ,	},
+}root	packet
+//x
+// c
+BodyLength {
+match string_ as
+Z9_ {  0123456789 : leftPad , }, } MetaData float { crc msg_type , }")).
+Eval vm_compute in ("<<<M3446>>>" ++ check (runes_of_ascii "// top
+options // c0a
+  // c0b
+{
+    // c1
+LittleEndian =
+    // c3
+true // c4
+; }
+    // c6
+packet
+    // c7
+B // c8
+{ // c9a
+  // c9b
+u8 // c10
+a // c11a
+  // c11b
+, // c12
+string s // c14
+, // c15a
+  // c15b
+} // c16a
+  // c16b
+root
+    // c17
+packet // c18a
+  // c18b
+P { u16 // c21
+L // c22a
+  // c22b
+@lengthOf( B ) // c25a
+  // c25b
+,
+    // c26
+B // c27a
+  // c27b
+, // c28
+u8 // c29
+t , // c31
+} ")).
+Eval vm_compute in ("<<<M3642>>>" ++ check (runes_of_ascii "//x
+options {
+}
+
+packet As {
+    @leftPad()
+    Packet `a\`,// c
+}
+
+packet i64_ {
+    i16 charz `tab	here`,
+    @calculatedFrom(""" ++ [233]%N ++ runes_of_ascii "t" ++ [233]%N ++ runes_of_ascii """)
+    @lengthOf(Packet)
+    char[4294967296] msg_type @lengthOf(leftPad),
+}
+
+MetaData o {
+    x falsey,// packet A { u8 x, }
+    i16 u8x `crlf
+    line`,
+    zchar[4294967296] u8x `" ++ [28040; 24687; 31867; 22411]%N ++ runes_of_ascii "`,
+    char[3] Header,
+    x string_,
+    // c
+    //	t
+}// @lengthOf(")).
+Eval vm_compute in ("<<<M1021>>>" ++ check (runes_of_ascii "
+options {
+MetaDataX=  1;  matchKey	= ""it's"" ;f32a  = f64
+    // @lengthOf(
+    ; options1 = true
+}// `tick` ""quote"" 'q'
+packet
+    As{ //
+char[ 7]
+lengthOf
+@lengthOf( Foo )`line1
+line2`
+    , string msg_type
+// @lengthOf(
+// a // b
+@lengthOf( float )	,
+@calculatedFrom( ""packet"" )@tag( 00 ) o  falsey
+`line1
+line2` ,
+}MetaData  Foo
+{zchar[ 4294967296 ]	asx  ,
+//
+//
+}
+")).
+Eval vm_compute in ("<<<M4292>>>" ++ check (runes_of_ascii "  packet
+    zchar
+{
+	stringy 	 //
+  @lengthOf(
+    MetaDataX
+	)
+
+`it's`
+
+,@tag(1 )
+
+    match
+    Z9_ as  calculatedFrom
+{
+""" ++ [28040; 24687]%N ++ runes_of_ascii """ :  Header,
+    0123456789:
+
+asx
+	[ 
+255
+	]  //	t
+
+	: // " ++ [128512]%N ++ runes_of_ascii " emoji
+  rootA ""\n""  : zchar,	}
+,
+
+    repeat float64
+
+rootA , char[] repeatCount ,
+
+    repeat int32
+
+    metadata  `" ++ [233]%N ++ runes_of_ascii "`
+, repeat 
+char[
+7
+
+    ]
+	u8x
 , }
 ")).
-Eval vm_compute in ("<<<M3558>>>" ++ check (runes_of_ascii "
-// top
-options  // c0a
-// c0b
-  {LittleEndian = 	 // c3a
-  // c3b
-
-  true
-
-    ; 	 // c5a
-    	// c5b
-
-}  // c6
-  	root
-	// c7
-    	packet
-	P
-// c9
-
-	{
-
-    u16 
-  // c11
-    a ,
-
-    u32  // c14a
-  // c14b
-    Sum
-@calculatedFrom(  // c16a
-    // c16b
-    	""CRC32"" // c17
-
-  )
-
-,  // c19
-    }// c20a
-		// c20b
- 
-")).
-Eval vm_compute in ("<<<M3852>>>" ++ check (runes_of_ascii "MetaData a1 {
-    u128 As,
-    char[4294967296] lengthOf,
-    uint64 msg_type,
-    x_y_z f32a,
-    float32 o,
-}
-
-options {
-}
-
-MetaData string_ {
-}
-
-packet roots {
-    repeat f32 As `" ++ [28040; 24687; 31867; 22411]%N ++ runes_of_ascii "`,
-}
-
-options {
-    // " ++ [128512]%N ++ runes_of_ascii " emoji
-    uint8x = ""a	b""
-    Packet = 42;
-    pack = 10;
-    tag = string;
-    repeatCount = char[0];
-}")).
-Eval vm_compute in ("<<<M1065>>>" ++ check (runes_of_ascii "packet// a // b
-i64_
-{ repeat int64 asx	`line1
-line2`	, } options {
+Eval vm_compute in ("<<<M709>>>" ++ check (runes_of_ascii "packet
+    calculatedFrom
+    {int16 asx @calculatedFrom( """"
+    )
+    , @calculatedFrom( ""1"" )
+i8i8 { i32 stringy	@calculatedFrom(
+    ""a	b""
+    )`say ""hi""`
+, i32//x
+uint8x
+, match Header as	Logon {
+00 :
+    A ,} ,match
+    // `tick` ""quote"" 'q'
+    repeatCount
+as Packet { ""packet""
+:
     // trailing space 
-    chars=	255
-; tag =
-    // c
-    3  ;
-matchKey =0123456789 }
-    MetaData
-packetx {charz BodyLength ,//x
-MetaDataX _x `two words` ,
-MetaDataX BodyLength	, float32 f32a `line1
-line2`, zchar[0 ]
-    stringy, }
+    MetaDataX """ ++ [28040; 24687]%N ++ runes_of_ascii """: u,} ,},	}
 ")).
-Eval vm_compute in ("<<<M1462>>>" ++ check (runes_of_ascii "root packet Foo // " ++ [128512]%N ++ runes_of_ascii " emoji
-{ } options {
-    // a // b
-    tag // `tick` ""quote"" 'q'
-= //	t
-""""
-    char[] u8x = zchar[0  ] }
-MetaData
-    int {zchar[ 10]
-lengthOf	`` , i64 u8x`// not a comment` ,MetaDataX pack// `tick` ""quote"" 'q'
-`crlf
-line`
-, Logon charz `crlf
-line`
-    ,
-    // a // b
-    }
+Eval vm_compute in ("<<<M123>>>" ++ check (runes_of_ascii "MetaData len /// triple
+{ //
+f64 T
+`u8 x,` , rootA	stringy ,  zchar repeatCount`say ""hi""` ,
+    MetaDataX As ,i8i8 string_, x_y_z f32a , } options // c
+{ Logon
+    //
+    =
+    string float =  string
+    A =
+""abc""/// triple
+;
+    //
+    A =
+""\" ++ [233]%N ++ runes_of_ascii """Logon =7	}
+    options{ }  options {
+    packetx = ""abc""// c
+; x =
+    true
+}
 ")).
-Eval vm_compute in ("<<<M627>>>" ++ check (runes_of_ascii "packet Foo {asx {falsey
-    ,  }
-, @calculatedFrom(
-// " ++ [128512]%N ++ runes_of_ascii " emoji
-/// triple
-""CRC32"" ) repeat char[ 007 ] rootA ,
-A , repeat// packet A { u8 x, }
-i8i8 pack
-`two words`
-// c
-// a // b
+Eval vm_compute in ("<<<M527>>>" ++ check (runes_of_ascii "packet
+    trueish { pack
+    @lengthOf( uint8x // " ++ [27880; 37322]%N ++ runes_of_ascii "
+) ,A @calculatedFrom(""CRC32"" ) //
+`say ""hi""`//
 ,
-} options {
-    }packet uint8x // @lengthOf(
-{ string Foo
-@lengthOf( u
-    ) `u8 x,`  ,  i32 BodyLength ,
+    repeat A{ /// triple
+body `" ++ [28040; 24687; 31867; 22411]%N ++ runes_of_ascii "` , a1
+// " ++ [27880; 37322]%N ++ runes_of_ascii "
+// `tick` ""quote"" 'q'
+body , o @calculatedFrom( ""a	b"" ), repeat MetaDataX ,
+}//
+,
+    @rightPad( ) match o
+as metadata
+{ 65535
+    : _x
+, ""\" ++ [233]%N ++ runes_of_ascii """  :
+pack
 }
-
+    , }
 ")).
-Eval vm_compute in ("<<<M1614>>>" ++ check (runes_of_ascii "root packet Foo // " ++ [128512]%N ++ runes_of_ascii " emoji
+Eval vm_compute in ("<<<M811>>>" ++ check (runes_of_ascii "options {
+    crc
+    // a // b
+    =""{,}"";
+body	=	1
+; }//x
+options { MetaDataX
+=
+    char[] ;chars
+// a // b
+// trailing space 
+=10
+; }// " ++ [128512]%N ++ runes_of_ascii " emoji
+packet
+    // " ++ [128512]%N ++ runes_of_ascii " emoji
+    falsey {
+@lengthOf( body
+//	t
+// a // b
+)i16 i64_ `u8 x,`  , // a // b
+@leftPad  (
+) roots @lengthOf(	packetx ) , zchar, }
+")).
+Eval vm_compute in ("<<<M1545>>>" ++ check (runes_of_ascii "root packet Foo // " ++ [128512]%N ++ runes_of_ascii " emoji
 { } options {
     // a // b
     tag // `tick` ""quote"" 'q'
 = //	t
 """"
     ; u8x = zchar[0  ] }
-~MetaData
+MetaData
+    int {zchar[ 10]
+lengthOf	`` , i64 u8x u8x`// not a comment` ,MetaDataX pack// `tick` ""quote"" 'q'
+`crlf
+line`
+, Logon charz `crlf
+line`
+    ,
+    // a // b
+    }
+")).
+Eval vm_compute in ("<<<M1520>>>" ++ check (runes_of_ascii "root packet Foo // " ++ [128512]%N ++ runes_of_ascii " emoji
+{ } options {
+    // a // b
+    tag // `tick` ""quote"" 'q'
+= //	t
+""""
+    ; u8x = zchar[0  ] }
+MetaData
+    int {zchar[ 10] ]
+lengthOf	`` , i64 u8x`// not a comment` ,MetaDataX pack// `tick` ""quote"" 'q'
+`crlf
+line`
+, Logon charz `crlf
+line`
+    ,
+    // a // b
+    }
+")).
+Eval vm_compute in ("<<<M1421>>>" ++ check (runes_of_ascii "root packet { // " ++ [128512]%N ++ runes_of_ascii " emoji
+Foo } options {
+    // a // b
+    tag // `tick` ""quote"" 'q'
+= //	t
+""""
+    ; u8x = zchar[0  ] }
+MetaData
     int {zchar[ 10]
 lengthOf	`` , i64 u8x`// not a comment` ,MetaDataX pack// `tick` ""quote"" 'q'
 `crlf
@@ -1757,7 +1657,7 @@ line`
     // a // b
     }
 ")).
-Eval vm_compute in ("<<<M1536>>>" ++ check (runes_of_ascii "root packet Foo // " ++ [128512]%N ++ runes_of_ascii " emoji
+Eval vm_compute in ("<<<M1586>>>" ++ check (runes_of_ascii "root packet Foo // " ++ [128512]%N ++ runes_of_ascii " emoji
 { } options {
     // a // b
     tag // `tick` ""quote"" 'q'
@@ -1766,17 +1666,17 @@ Eval vm_compute in ("<<<M1536>>>" ++ check (runes_of_ascii "root packet Foo // "
     ; u8x = zchar[0  ] }
 MetaData
     int {zchar[ 10]
-lengthOf	`` i64 , u8x`// not a comment` ,MetaDataX pack// `tick` ""quote"" 'q'
+lengthOf	`` , i64 u8x`// not a comment` ,MetaDataX pack// `tick` ""quote"" 'q'
 `crlf
 line`
-, Logon charz `crlf
-line`
+, Logon `crlf
+line` charz
     ,
     // a // b
     }
 ")).
-Eval vm_compute in ("<<<M1554>>>" ++ check (runes_of_ascii "root packet Foo // " ++ [128512]%N ++ runes_of_ascii " emoji
-{ } options {
+Eval vm_compute in ("<<<M1437>>>" ++ check (runes_of_ascii "root packet Foo // " ++ [128512]%N ++ runes_of_ascii " emoji
+{ } false {
     // a // b
     tag // `tick` ""quote"" 'q'
 = //	t
@@ -1784,7 +1684,7 @@ Eval vm_compute in ("<<<M1554>>>" ++ check (runes_of_ascii "root packet Foo // "
     ; u8x = zchar[0  ] }
 MetaData
     int {zchar[ 10]
-lengthOf	`` , i64 u8x`// not a comment` MetaDataX pack// `tick` ""quote"" 'q'
+lengthOf	`` , i64 u8x`// not a comment` ,MetaDataX pack// `tick` ""quote"" 'q'
 `crlf
 line`
 , Logon charz `crlf
@@ -1793,26 +1693,25 @@ line`
     // a // b
     }
 ")).
-Eval vm_compute in ("<<<M3913>>>" ++ check (runes_of_ascii "options {
-    calculatedFrom = i32;// @lengthOf(
-    string_ = 7
-    uint8x = true;
-}
-
-packet chars {
-    string stringy @lengthOf(stringy),
-}
-
-options {
-    lengthOf = '\x00'
-    // c
-    /// triple
-    matchKey = '0';
-    Z9_ = string;
-    calculatedFrom = true;
-    metadata = ""a	b"";
-}")).
-Eval vm_compute in ("<<<M3508>>>" ++ check (runes_of_ascii "options {
+Eval vm_compute in ("<<<M1509>>>" ++ check (runes_of_ascii "root packet Foo // " ++ [128512]%N ++ runes_of_ascii " emoji
+{ } options {
+    // a // b
+    tag // `tick` ""quote"" 'q'
+= //	t
+""""
+    ; u8x = zchar[0  ] }
+MetaData
+    int { 10]
+lengthOf	`` , i64 u8x`// not a comment` ,MetaDataX pack// `tick` ""quote"" 'q'
+`crlf
+line`
+, Logon charz `crlf
+line`
+    ,
+    // a // b
+    }
+")).
+Eval vm_compute in ("<<<M3514>>>" ++ check (runes_of_ascii "options {
     LittleEndian = true;
     ArrayPrefixLenType = u64;
     FixedStringPadFromLeft = false;
@@ -1826,101 +1725,37 @@ root packet Order {
     match Px as Body {
         [119, 147] : Quote,
     },
-    u16 Flags @calculatedFrom(""CR\
-C32""),
+    u16 Flags @calculatedFrom(""CRC32""),
 }
 ")).
-Eval vm_compute in ("<<<M4287>>>" ++ check (runes_of_ascii "  packet
-falsey
-    {
-    }
-MetaData
-	x
-
-    {
-
-    body
-
-len  // @lengthOf(
-	,
-lengthOf trueish	`two words`
-	, zchar[// packet A { u8 x, }
-	65535 ]	Header`it's`
-,
-	packetx
-
-    uint8x	`
-`
-,
-
-int32  As,
-    } 
-    // " ++ [128512]%N ++ runes_of_ascii " emoji
-    	root	packet	i8i8
-    {
-    }
-")).
-Eval vm_compute in ("<<<M4187>>>" ++ check (runes_of_ascii "packet 
-charz 
-//	t
-
-	{
-@tag(7
-
-    )
-	@leftPad
-    ('0') @rightPad( '0'
-)
-repeat 
-Logon,
-}
-
-options// trailing space 
-{} options
-
+Eval vm_compute in ("<<<M3493>>>" ++ check (runes_of_ascii "packet FooBar
+    // c1
 {
-	}
-MetaData
-	roots {	float
-a1 
-`" ++ [233]%N ++ runes_of_ascii "`
-    // " ++ [27880; 37322]%N ++ runes_of_ascii "
-  , 
-zchar[255	]
-
-    calculatedFrom , u32 	 // " ++ [27880; 37322]%N ++ runes_of_ascii "
-    	Packet, }//x
- 
+    // c2
+u8 // c3
+a
+    // c4
+, } // c6
+packet // c7
+foo_bar {
+    // c9
+u16 // c10a
+  // c10b
+b // c11a
+  // c11b
+, // c12a
+  // c12b
+} root // c14a
+  // c14b
+packet // c15
+R
+    // c16
+{ FooBar // c18
+, // c19
+foo_bar , // c21
+} // c22
 ")).
-Eval vm_compute in ("<<<M1588>>>" ++ check (runes_of_ascii "root packet Foo // " ++ [128512]%N ++ runes_of_ascii " emoji
-{ } options {
-    // a // b
-    tag // `tick` ""quote"" 'q'
-= //	t
-""""
-    ; u8x = zchar[0  ] }
-MetaData
-    int {zchar[ 10]
-lengthOf	`` , i64 u8x`// not a comment` ,MetaDataX pack// `tick` ""quote"" 'q'
-`crlf
-line`
-, Logon")).
-Eval vm_compute in ("<<<M1267>>>" ++ check (runes_of_ascii "
-MetaData
-    // a // b
-    uint8x /// triple
-{ }packet matchKey	{ @rightPad (	)
-    a1
-{
-zchar[
-    1 ] u128 @calculatedFrom(  ""a\""b"" ),	i64_ i8i8 ,
-    // c
-    repeat int roots , i8 charz
-//
-// packet A { u8 x, }
-,  }	,
-} options { }")).
-Eval vm_compute in ("<<<M3702>>>" ++ check (runes_of_ascii "root packet Foo {
+Eval vm_compute in ("<<<M3947>>>" ++ check (runes_of_ascii "root packet Foo {
 }
 
 options {
@@ -1931,535 +1766,601 @@ options {
 
 MetaData int {
     zchar[10] lengthOf ``,
-    i64 u8x `// not a comment`,
+    float64 u8x `// not a comment`,
     MetaDataX pack `crlf
-    line`,
-    charz Logon `crlf
-    line`,
+        line`,
+    Logon charz `crlf
+        line`,
+    // a // b
 }")).
-Eval vm_compute in ("<<<M2243>>>" ++ check (runes_of_ascii "MetaData Packet { }packet	asx  @leftPad @lengthOf( asx) falsey`crlf
-line`
-,
-    }
-    packet x	{uint32// @lengthOf(
-rootA	,u32 options1 `say ""hi""` , @tag( 7
-    )// packet A { u8 x, }
-msg_type @lengthOf(
-stringy	)	, }
-
-")).
-Eval vm_compute in ("<<<M2382>>>" ++ check (runes_of_ascii "MetaData Packet { }packet	asx  { @lengthOf( asx) falsey`crlf
-line`
-,
-    }
-    pac'1'ket x	{uint32// @lengthOf(
-rootA	,u32 options1 `say ""hi""` , @tag( 7
-    )// packet A { u8 x, }
-msg_type @lengthOf(
-stringy	)	, }
-
-")).
-Eval vm_compute in ("<<<M2380>>>" ++ check (runes_of_ascii "MetaData Packet { }packet	asx  { @lengthOf( asx) falsey`crlf
-line`
-,
-    }
-    packet x	{uint32// @lengthOf(
-rootA	,u32 options1 `say ""hi""` `, @tag( 7
-    )// packet A { u8 x, }
-msg_type @lengthOf(
-stringy	)	, }
-
-")).
-Eval vm_compute in ("<<<M2322>>>" ++ check (runes_of_ascii "MetaData Packet { }packet	asx  { @lengthOf( asx) falsey`crlf
-line`
-,
-    }
-    packet x	{uint32// @lengthOf(
-rootA	,u32 options1 , `say ""hi""` @tag( 7
-    )// packet A { u8 x, }
-msg_type @lengthOf(
-stringy	)	, }
-
-")).
-Eval vm_compute in ("<<<M2395>>>" ++ check (runes_of_ascii "MetaData Packet { }packet	" ++ [21517; 23383]%N ++ runes_of_ascii "  { @lengthOf( asx) falsey`crlf
-line`
-,
-    }
-    packet x	{uint32// @lengthOf(
-rootA	,u32 options1 `say ""hi""` , @tag( 7
-    )// packet A { u8 x, }
-msg_type @lengthOf(
-stringy	)	, }
-
-")).
-Eval vm_compute in ("<<<M2295>>>" ++ check (runes_of_ascii "MetaData Packet { }packet	asx  { @lengthOf( asx) falsey`crlf
-line`
-,
-    }
-    packet x	{// @lengthOf(
-rootA	,u32 options1 `say ""hi""` , @tag( 7
-    )// packet A { u8 x, }
-msg_type @lengthOf(
-stringy	)	, }
-
-")).
-Eval vm_compute in ("<<<M3950>>>" ++ check (runes_of_ascii "
-
-  packet
+Eval vm_compute in ("<<<M1335>>>" ++ check (runes_of_ascii "root
+    packet BodyLength
+{// " ++ [128512]%N ++ runes_of_ascii " emoji
+@leftPad ('\x00' //
+) zchar[ 4294967296] zchar , int64 x_y_z , @lengthOf( f32a )
     // `tick` ""quote"" 'q'
-  // " ++ [27880; 37322]%N ++ runes_of_ascii "
+    @calculatedFrom(
+""abc"" ) @lengthOf(
+    calculatedFrom )  char[ 0]tag
+, falsey , } // a // b")).
+Eval vm_compute in ("<<<M921>>>" ++ check (runes_of_ascii "root packet
+    len {@rightPad( '0') repeat msg_type Foo ,
+    match  calculatedFrom
+as roots{ 00 : falsey	},@lengthOf( tag ) match // `tick` ""quote"" 'q'
+int as rootA { //
+7 :_x , },@calculatedFrom(
+    ""\" ++ [233]%N ++ runes_of_ascii """
+    )	f64 // " ++ [27880; 37322]%N ++ runes_of_ascii "
+crc ,
+}
+")).
+Eval vm_compute in ("<<<M3554>>>" ++ check (runes_of_ascii "packet Sub {
+    u8 a,
+    @calculatedFrom(""CRC16"") i16 SubSum,
+}
+root packet Frame {
+    u16 MsgType,
+    u16 BodyLen @lengthOf(Body),
+    Sub Body,
+    string note,
+    @calculatedFrom(""CRC16"") i16 Checksum,
+    u8 tail,
+}
+")).
+Eval vm_compute in ("<<<M2301>>>" ++ check (runes_of_ascii "MetaData Packet { }packet	asx  { @lengthOf( asx) falsey`crlf
+line`
+,
+    }
+    packet x	{uint32// @lengthOf(
+rootA rootA	,u32 options1 `say ""hi""` , @tag( 7
+    )// packet A { u8 x, }
+msg_type @lengthOf(
+stringy	)	, }
 
-	len{
-	match
-x
+")).
+Eval vm_compute in ("<<<M2303>>>" ++ check (runes_of_ascii "MetaData Packet { }packet	asx  { @lengthOf( asx) falsey`crlf
+line`
+,
+    }
+    packet x	{uint32// @lengthOf(
+options	,u32 options1 `say ""hi""` , @tag( 7
+    )// packet A { u8 x, }
+msg_type @lengthOf(
+stringy	)	, }
+
+")).
+Eval vm_compute in ("<<<M2218>>>" ++ check (runes_of_ascii "MetaData { Packet }packet	asx  { @lengthOf( asx) falsey`crlf
+line`
+,
+    }
+    packet x	{uint32// @lengthOf(
+rootA	,u32 options1 `say ""hi""` , @tag( 7
+    )// packet A { u8 x, }
+msg_type @lengthOf(
+stringy	)	, }
+
+")).
+Eval vm_compute in ("<<<M4156>>>" ++ check (runes_of_ascii "packet	Logon
+
+{ string user ,
+
+} root
+
+    packet
+	Frame
+{u8 K, 
+match
+	K
 	as
 
-pack{ 	 // @lengthOf(
-  3  :  MetaDataX	255 :
+Body
+    { 
+1 
+:
 
-Foo
-,00
-: o 
-}
-    ,
-@calculatedFrom( ""CRC32"")
+Logon
 
-    u128 @lengthOf(
+    ,2:Logout  ,	}, Tail,
 
-packetx  )  ,  }
-
-")).
-Eval vm_compute in ("<<<M1>>>" ++ check (runes_of_ascii "// c
-options {
-    lengthOf = false Logon =
-    false ;
-} MetaData lengthOf
-{ // " ++ [128512]%N ++ runes_of_ascii " emoji
-float32 i8i8, }
-root // `tick` ""quote"" 'q'
-packet roots
-{  zchar[
-7	] f32a
-    // trailing space 
-    , }
-")).
-Eval vm_compute in ("<<<M1563>>>" ++ check (runes_of_ascii "root packet Foo // " ++ [128512]%N ++ runes_of_ascii " emoji
-{ } options {
-    // a // b
-    tag // `tick` ""quote"" 'q'
-= //	t
-""""
-    ; u8x = zchar[0  ] }
-MetaData
-    int {zchar[ 10]
-lengthOf	`` , i64 u8x`// not a comment` ,")).
-Eval vm_compute in ("<<<M3730>>>" ++ check (runes_of_ascii "packet len {
-}//	t
-
-root packet Pad {
-    char[] Header,
-    @lengthOf(falsey)
-    // " ++ [128512]%N ++ runes_of_ascii " emoji
-    char[] Header,
-    len `line1
-        line2`,
-}
-
-packet asx {
-    repeat int16 u,
-}")).
-Eval vm_compute in ("<<<M3965>>>" ++ check (runes_of_ascii "
-MetaData
-
-float {
-
-    i64_ Z9_`tab	here`,pack // " ++ [27880; 37322]%N ++ runes_of_ascii "
-	falsey
-,
-	uint8x float 
-,  // c
-  	zchar[  4294967296 ]
-x_y_z
-, 
-int16 chars  `" ++ [233]%N ++ runes_of_ascii "` 
-, x_y_z
-
-    stringy
-    ,	}")).
-Eval vm_compute in ("<<<M370>>>" ++ check (runes_of_ascii "packet
-    rootA // packet A { u8 x, }
-{ tag
-`u8 x,`
-, char[]	o	,
-    i8i8	@lengthOf(
-    // @lengthOf(
-    stringy ) `// not a comment`
-    ,
-    // " ++ [128512]%N ++ runes_of_ascii " emoji
     }
-")).
-Eval vm_compute in ("<<<M1104>>>" ++ check (runes_of_ascii "packet
-As {u128 MetaDataX , char[
-3
-] falsey ,  } options { falsey
-    /// triple
-    = ""it's""	;
-}MetaData a1
-{u8x A , matchKey _x `" ++ [28040; 24687; 31867; 22411]%N ++ runes_of_ascii "` ,
-    string T
-, }")).
-Eval vm_compute in ("<<<M3796>>>" ++ check (runes_of_ascii "packet lengthOf {
-    @leftPad()
-    @tag(7)
-    u8 BodyLength,
-    char[1] chars `
-        `,
-    @tag(00)
-    char[0] Z9_ @lengthOf(float) `u8 x,`,
+    packet
+    Logout
+{u16
+    reason
+
+, }packet
+
+Tail{  u32 crc	,
+
 }")).
-Eval vm_compute in ("<<<M1208>>>" ++ check (runes_of_ascii "
-packet asx{ @tag( 10 )  u64
-_x @calculatedFrom( """ ++ [28040; 24687]%N ++ runes_of_ascii """ ) ,
-    } options
-{ i64_ = true /// triple
-packetx = u16 ; } options {
-msg_type =
-""{,}"" }")).
-Eval vm_compute in ("<<<M3895>>>" ++ check (runes_of_ascii "
-
-  packet
-A 
-{
-match k
-as  n 
-{
-    [
-	""a"" ,	""bb""
+Eval vm_compute in ("<<<M760>>>" ++ check (runes_of_ascii "packet charz// @lengthOf(
+{ @calculatedFrom( ""{,}"" // @lengthOf(
+)
+char[// " ++ [128512]%N ++ runes_of_ascii " emoji
+255 ] crc @calculatedFrom( """ ++ [233]%N ++ runes_of_ascii "t" ++ [233]%N ++ runes_of_ascii """  ) , @tag(
+    // a // b
+    7 ) uint16
+    pack @calculatedFrom(
+    """ ++ [233]%N ++ runes_of_ascii "t" ++ [233]%N ++ runes_of_ascii """ ) `two words`
 ,
-""c c""
-
-    ,	""d""
+}")).
+Eval vm_compute in ("<<<M2212>>>" ++ check (runes_of_ascii " Packet { }packet	asx  { @lengthOf( asx) falsey`crlf
+line`
 ,
-	""e""
-    ,
+    }
+    packet x	{uint32// @lengthOf(
+rootA	,u32 options1 `say ""hi""` , @tag( 7
+    )// packet A { u8 x, }
+msg_type @lengthOf(
+stringy	)	, }
 
-    ""f""
-,""g"" 
-,""h""
-,
-
-""i""
-] :
-B
-2:C  }
-
-, } ")).
-Eval vm_compute in ("<<<M4251>>>" ++ check (runes_of_ascii "packet A {
-    match k as n {
-        [
-            1, 22, 007, 4, 5,
-            66, 7, 8, 9, 10
-        ] : B,
-        2 : C,
+")).
+Eval vm_compute in ("<<<M1304>>>" ++ check (runes_of_ascii "packet
+    u8x { int32 o
+    , }  options {//x
+options1 =
+    10
+    // a // b
+    Header
+= 1// " ++ [27880; 37322]%N ++ runes_of_ascii "
+;	lengthOf = '\x00'; } root packet // packet A { u8 x, }
+falsey { @lengthOf( Header ) Foo
+`" ++ [28040; 24687; 31867; 22411]%N ++ runes_of_ascii "` ,}")).
+Eval vm_compute in ("<<<M3431>>>" ++ check (runes_of_ascii "// top
+root // c0
+packet // c1
+P
+    // c2
+{ hdr
+    // c4
+{ // c5
+u8 // c6
+a
+    // c7
+, // c8a
+  // c8b
+} // c9a
+  // c9b
+, // c10
+u8 // c11a
+  // c11b
+x // c12a
+  // c12b
+, // c13
+} // c14
+")).
+Eval vm_compute in ("<<<M3988>>>" ++ check (runes_of_ascii "packet zchar {
+    @tag(255)
+    match u128 as roots {
+        0123456789 : u,
+    },
+    zchar[4294967296] charz `tab	here`,// " ++ [27880; 37322]%N ++ runes_of_ascii "
+    match uint8x as leftPad {
+        10 : _x,
     },
 }")).
-Eval vm_compute in ("<<<M3186>>>" ++ check (runes_of_ascii "// top
-MetaData
-    // c0
-zchar
-    // c1
-{
-    // c2
-zchar[
-    // c3
-3
-    // c4
-]
-    // c5
-Pad
-    // c6
-,
-    // c7
+Eval vm_compute in ("<<<M638>>>" ++ check (runes_of_ascii "options /// triple
+{ T= //
+""" ++ [128512]%N ++ runes_of_ascii """ ;
+    o= '\x00'As =
+    '\x00' //	t
+tag	= // a // b
+""1""
 }
-    // c8
+    root packet MetaDataX	{ @rightPad ('0' ) _x
+`// not a comment`	, /// triple
+}")).
+Eval vm_compute in ("<<<M483>>>" ++ check (runes_of_ascii "options  { // packet A { u8 x, }
+options1
+    = ""\" ++ [233]%N ++ runes_of_ascii """ ;
+    A=
+    false /// triple
+;
+    matchKey =""\" ++ [233]%N ++ runes_of_ascii """	packetx= ' ' ;
+//
+// packet A { u8 x, }
+options1 =
+    ' ' ; }
 ")).
-Eval vm_compute in ("<<<M1673>>>" ++ check (runes_of_ascii "root packet /// triple
+Eval vm_compute in ("<<<M1345>>>" ++ check (runes_of_ascii "options {f32a
+=
+""packet"" } MetaData
+    float{ zchar[0 ]Z9_ `
+` ,
+u64 roots ,
+    //	t
+    uint64  zchar`` , int32
+trueish, uint64 roots
+,
+} // `tick` ""quote"" 'q'")).
+Eval vm_compute in ("<<<M1205>>>" ++ check (runes_of_ascii "
+packet charz {
+    char[
+// packet A { u8 x, }
+//
+0123456789
+] A `it's` , u64
+Z9_
+, @calculatedFrom(
+""// no comment"")
+    A
+,u
+    o
+    , }  options{}
+")).
+Eval vm_compute in ("<<<M102>>>" ++ check (runes_of_ascii "packet u128
+{ i64 A `{ , }`
+,
+    } MetaData
+    i64_ {
+trueish
+Z9_ ,
+// " ++ [128512]%N ++ runes_of_ascii " emoji
+// `tick` ""quote"" 'q'
+} options { metadata = i16 ; charz=
+false}
+")).
+Eval vm_compute in ("<<<M2378>>>" ++ check (runes_of_ascii "MetaData Packet { }packet	asx  { @lengthOf( asx) falsey`crlf
+line`
+,
+    }
+    packet x	{uint32// @lengthOf(
+rootA	,u32 options1 `say ""hi""` , ")).
+Eval vm_compute in ("<<<M1648>>>" ++ check (runes_of_ascii "root packet /// triple
+rootA {	i32
+MetaDataX MetaDataX@calculatedFrom( ""CRC32"" ) `line1
+line2` , } MetaData BodyLength {
+u8
+rootA, } // c")).
+Eval vm_compute in ("<<<M3880>>>" ++ check (runes_of_ascii "packet trueish {
+    match f32a as stringy {
+        """ ++ [28040; 24687]%N ++ runes_of_ascii """ : _x,
+        1 : stringy,
+        65535 : u8x,
+        65535 : asx,
+    },
+}")).
+Eval vm_compute in ("<<<M1731>>>" ++ check (runes_of_ascii "root packet /// triple
+rootA {	i32
+MetaDataX@calculatedFrom( '' ""CRC32"" ) `line1
+line2` , } MetaData BodyLength {
+u8
+rootA, } // c")).
+Eval vm_compute in ("<<<M1732>>>" ++ check (runes_of_ascii "root packet /// triple
 rootA {	i32
 MetaDataX@calculatedFrom( ""CRC32"" ) `line1
-line2` , , } MetaData BodyLength {
+line2` , } MetaD%ata BodyLength {
 u8
 rootA, } // c")).
-Eval vm_compute in ("<<<M1669>>>" ++ check (runes_of_ascii "root packet /// triple
-rootA {	i32
-MetaDataX@calculatedFrom( ""CRC32"" ) , `line1
-line2` } MetaData BodyLength {
-u8
-rootA, } // c")).
-Eval vm_compute in ("<<<M874>>>" ++ check (runes_of_ascii "  options { Logon = 007	leftPad= true
-; repeatCount =
-    // trailing space 
-    0
-    // a // b
-    u =	i32
-; f32a
-='0';
-}
-
-")).
-Eval vm_compute in ("<<<M1625>>>" ++ check (runes_of_ascii " packet /// triple
+Eval vm_compute in ("<<<M1707>>>" ++ check (runes_of_ascii "root packet /// triple
 rootA {	i32
 MetaDataX@calculatedFrom( ""CRC32"" ) `line1
 line2` , } MetaData BodyLength {
 u8
-rootA, } // c")).
-Eval vm_compute in ("<<<M4331>>>" ++ check (runes_of_ascii "packet A {
-    u16 len @lengthOf(body) `
-        x`,
-    u32 crc @calculatedFrom(""CRC32"") `
-        x`,
-    string body,
-}")).
-Eval vm_compute in ("<<<M1791>>>" ++ check (runes_of_ascii "packet
-    Pad // a // b
-{ { i8i8 @calculatedFrom( ""a	b"") `u8 x,` ,
-} options{ float// " ++ [128512]%N ++ runes_of_ascii " emoji
-= f64 i64_
-=//	t
-00 }
+rootA } // c")).
+Eval vm_compute in ("<<<M4098>>>" ++ check (runes_of_ascii "// top
+MetaData 	 // c0
+	  zchar // c1
+
+	{  // c2
+	  zchar[ // c3
+3 // c4
+	] 	 // c5
+  Pad	// c6
+  ,// c7
+    } 	 // c8
 ")).
-Eval vm_compute in ("<<<M2314>>>" ++ check (runes_of_ascii "MetaData Packet { }packet	asx  { @lengthOf( asx) falsey`crlf
-line`
+Eval vm_compute in ("<<<M3968>>>" ++ check (runes_of_ascii "  packet  A {
+
+match k
+	as  n
+
+{
+[  ""a""
 ,
-    }
-    packet x	{uint32// @lengthOf(
-rootA	,")).
-Eval vm_compute in ("<<<M3650>>>" ++ check (runes_of_ascii "  options  {  len =char[	10 
+
+""bb""	, 007	,
+	""d"",
+""e""
+, 66 ,
+
+    ""g"" ,
+	""h"" ,	9, ""j"" 
 ]
-    asx
-
+:
+B
+	2  : C }
+,	} ")).
+Eval vm_compute in ("<<<M1009>>>" ++ check (runes_of_ascii "options
+{
+// @lengthOf(
+// " ++ [27880; 37322]%N ++ runes_of_ascii "
+Logon	= char[007 ] matchKey =char[7 // " ++ [128512]%N ++ runes_of_ascii " emoji
+] string_= ""1"" ; msg_type
 =
-    false
-
-    ;
-    string_
-
-    =
-""""
-    ; } // `tick` ""quote"" 'q'
-")).
-Eval vm_compute in ("<<<M4124>>>" ++ check (runes_of_ascii "// top
-packet o {
-    @tag(42)
-    // c5
-    repeat x {
-        char[0123456789] i64_,
-    },
-}
-
-options {
-}// c19a")).
-Eval vm_compute in ("<<<M1805>>>" ++ check (runes_of_ascii "packet
+    ""\" ++ [233]%N ++ runes_of_ascii """ ;} 	 ")).
+Eval vm_compute in ("<<<M1895>>>" ++ check (runes_of_ascii "packet
     Pad // a // b
-{ i8i8 @calculatedFrom( ) `u8 x,` ,
+{ i8i8 @calculatedFrom( ""a	b"") `u8 x,` ,
+} options{ float// " ++ [128512]%N ++ runes_of_ascii " emoji
+= f64 caf" ++ [233]%N ++ runes_of_ascii "_1
+=//	t
+00 }
+")).
+Eval vm_compute in ("<<<M1783>>>" ++ check (runes_of_ascii "Pad
+    packet // a // b
+{ i8i8 @calculatedFrom( ""a	b"") `u8 x,` ,
 } options{ float// " ++ [128512]%N ++ runes_of_ascii " emoji
 = f64 i64_
 =//	t
 00 }
 ")).
-Eval vm_compute in ("<<<M764>>>" ++ check (runes_of_ascii "// c
-root packet u128	{asx ,} packet body
-    { @lengthOf(
-    i8i8 ) crc @lengthOf(
-    Header)
-    , } // c")).
-Eval vm_compute in ("<<<M1478>>>" ++ check (runes_of_ascii "root packet Foo // " ++ [128512]%N ++ runes_of_ascii " emoji
-{ } options {
+Eval vm_compute in ("<<<M1833>>>" ++ check (runes_of_ascii "packet
+    Pad // a // b
+{ i8i8 @calculatedFrom( ""a	b"") `u8 x,` ,
+} uint64{ float// " ++ [128512]%N ++ runes_of_ascii " emoji
+= f64 i64_
+=//	t
+00 }
+")).
+Eval vm_compute in ("<<<M1706>>>" ++ check (runes_of_ascii "root packet /// triple
+rootA {	i32
+MetaDataX@calculatedFrom( ""CRC32"" ) `line1
+line2` , } MetaData BodyLength {
+u8")).
+Eval vm_compute in ("<<<M1036>>>" ++ check (runes_of_ascii "options {
+    Packet =
     // a // b
-    tag // `tick` ""quote"" 'q'
-= //	t
-""""
-    ; u8x =")).
-Eval vm_compute in ("<<<M2983>>>" ++ check (runes_of_ascii "packet A {
-  match k as n {
-    [""a"", 22, ""c c"", 4, ""e"", 66, ""g"", 8, ""i"", 10, ""k""] : B
-    2 : C
-  },
+    007
+    ;
+u128 =	false ; Header
+    = 42 Z9_= char[ 10
+]; } // a // b")).
+Eval vm_compute in ("<<<M4>>>" ++ check (runes_of_ascii "packet // a // b
+tag {
+    char[ 7]
+body
+@calculatedFrom( ""a	b"")
+// trailing space 
+// trailing space 
+,
 }")).
-Eval vm_compute in ("<<<M3366>>>" ++ check (runes_of_ascii "packet calculatedFrom { @tag( 4294967296 ) u msg_type , char[ 3 ] crc @lengthOf(
+Eval vm_compute in ("<<<M383>>>" ++ check (runes_of_ascii "options { leftPad
+= '\x00'
+    ;Pad =
+    char
+    }packet f32a {
+    @leftPad ( ) f64	stringy
+    , } 	 ")).
+Eval vm_compute in ("<<<M3341>>>" ++ check (runes_of_ascii "packet calculatedFrom // c
+{ @tag( 4294967296 ) u msg_type , char[ 3 ] crc @lengthOf( len ) `u8 x,` , }")).
+Eval vm_compute in ("<<<M3373>>>" ++ check (runes_of_ascii "packet calculatedFrom { @tag( 4294967296 ) u msg_type , char[ 3 ] crc @lengthOf( len ) `u8 x,` , // c
+}")).
+Eval vm_compute in ("<<<M843>>>" ++ check (runes_of_ascii "  packet crc { repeat int64 string_
+    `" ++ [28040; 24687; 31867; 22411]%N ++ runes_of_ascii "` , } root packet
+leftPad {
+    } MetaData A{
+}
 // c
-len ) `u8 x,` , }")).
-Eval vm_compute in ("<<<M2019>>>" ++ check (runes_of_ascii "root
-packet crc
-    { f32a @calculatedFrom( """ ++ [233]%N ++ runes_of_ascii "t" ++ [233]%N ++ runes_of_ascii """ )
-    `say ""hi""`, lengthOf `` @calculatedFrom(  }")).
-Eval vm_compute in ("<<<M2967>>>" ++ check (runes_of_ascii "packet A {
-  match k as n {
-    [1, ""bb"", 007, ""d"", 5, ""f"", 7, ""h"", 9, ""j""] : B,
-    2 : C
-  },
+")).
+Eval vm_compute in ("<<<M3017>>>" ++ check (runes_of_ascii "packet A {
+    Inner {
+        u8 x `
+`,
+        Deep {
+            u8 y `
+`,
+        },
+    },
 }")).
-Eval vm_compute in ("<<<M3216>>>" ++ check (runes_of_ascii "packet // c
+Eval vm_compute in ("<<<M3217>>>" ++ check (runes_of_ascii "packet
+// c
 Logon { @tag( 42 ) @rightPad ( ' ' ) @leftPad ( ) repeat trueish { string T , } , }")).
-Eval vm_compute in ("<<<M3248>>>" ++ check (runes_of_ascii "packet Logon { @tag( 42 ) @rightPad ( ' ' ) @leftPad ( ) repeat trueish { string // c
+Eval vm_compute in ("<<<M3249>>>" ++ check (runes_of_ascii "packet Logon { @tag( 42 ) @rightPad ( ' ' ) @leftPad ( ) repeat trueish { string
+// c
 T , } , }")).
-Eval vm_compute in ("<<<M2972>>>" ++ check (runes_of_ascii "packet A {
-  match k as n {
-    [1, 22, ""c c"", 4, 5, ""f"", 7, 8, ""i"", 10] : B
-    2 : C
-  },
-}")).
+Eval vm_compute in ("<<<M3935>>>" ++ check (runes_of_ascii "
+packet
+    A
+
+{match	k as
+
+n {
+[
+
+1 ,
+""bb""
+
+    , 007]:  B
+
+, 2:
+C
+
+    }
+    ,
+	}
+")).
 Eval vm_compute in ("<<<M1977>>>" ++ check (runes_of_ascii "root
 packet crc
     { f32a f32a @calculatedFrom( """ ++ [233]%N ++ runes_of_ascii "t" ++ [233]%N ++ runes_of_ascii """ )
     `say ""hi""`, lengthOf `` ,  }")).
-Eval vm_compute in ("<<<M1137>>>" ++ check (runes_of_ascii "packet roots {rootA @lengthOf(
-    trueish ) `line1
-line2` , int16 Packet
-`" ++ [28040; 24687; 31867; 22411]%N ++ runes_of_ascii "` , } 	 ")).
-Eval vm_compute in ("<<<M2044>>>" ++ check (runes_of_ascii "root
-packet crc
-    { na" ++ [239]%N ++ runes_of_ascii "ve @calculatedFrom( """ ++ [233]%N ++ runes_of_ascii "t" ++ [233]%N ++ runes_of_ascii """ )
-    `say ""hi""`, lengthOf `` ,  }")).
-Eval vm_compute in ("<<<M1409>>>" ++ check (runes_of_ascii "root packet SimpleMessage {
-	uint16 MsgType `" ++ [28040; 24687; 31867; 22411]%N ++ runes_of_ascii "`,
-	string JsonBody `Json" ++ [23383; 31526; 20018; 28040; 24687; 20307]%N ++ runes_of_ascii "`,
-}")).
-Eval vm_compute in ("<<<M2937>>>" ++ check (runes_of_ascii "packet A {
+Eval vm_compute in ("<<<M2935>>>" ++ check (runes_of_ascii "packet A {
   match k as n {
-    [1, 22, 007, 4, 5, 66, 7, 8] : B,
+    [""a"", ""bb"", 007, ""d"", ""e"", 66, ""g""] : B
     2 : C
   },
 }")).
-Eval vm_compute in ("<<<M3307>>>" ++ check (runes_of_ascii "packet o { @tag( 42 ) repeat
-// c
-x { char[ 0123456789 ] i64_ , } , } options { }")).
-Eval vm_compute in ("<<<M856>>>" ++ check (runes_of_ascii "MetaData
-    uint8x{ // " ++ [27880; 37322]%N ++ runes_of_ascii "
-packetx body
-`// not a comment`, zchar[ 7 ]rootA , }")).
-Eval vm_compute in ("<<<M823>>>" ++ check (runes_of_ascii "options{Header = true ; pack
-= ""{,}"" ; }
-//
-/// triple
-options{
-i8i8= false
-}")).
-Eval vm_compute in ("<<<M4460>>>" ++ check (runes_of_ascii "MetaData uint8x {
-    packetx body `// not a comment`,
-    zchar[7] rootA,
-}")).
-Eval vm_compute in ("<<<M2158>>>" ++ check (runes_of_ascii "root
-    // `tick` ""quote"" 'q'
-    packet packet As { trueish Packet , }
-")).
-Eval vm_compute in ("<<<M4140>>>" ++ check (runes_of_ascii "// top
-root packet P {
-    // c3
-    repeat char cs,
-    u8 x,// c10a
-}")).
-Eval vm_compute in ("<<<M3411>>>" ++ check (runes_of_ascii "MetaData _x { zchar[ 4294967296 ] lengthOf `// not a comment` , // c
-}")).
-Eval vm_compute in ("<<<M2188>>>" ++ check (runes_of_ascii "root
-    // `tick` ""quote"" 'q'
-    packet As { trueish Packet , i32
-")).
-Eval vm_compute in ("<<<M4466>>>" ++ check (runes_of_ascii "
+Eval vm_compute in ("<<<M4304>>>" ++ check (runes_of_ascii "packet
+	A { match	k
+	as n{ [ 1
+,
+    ""bb""
+	,
+	007
+,
 
-  // top
-    packet	// c0
-  lengthOf 	 // c1
-	{// c2
-} 	 // c3
+    ""d""] :B
+    2  : C
+}
+,}
+
 ")).
-Eval vm_compute in ("<<<M2164>>>" ++ check (runes_of_ascii "root
-    // `tick` ""quote"" 'q'
-    packet = { trueish Packet , }
-")).
-Eval vm_compute in ("<<<M3003>>>" ++ check (runes_of_ascii "packet A {
-    B b `a
-b`,
-    B `a
-b`,
-    repeat B bs `a
-b`,
+Eval vm_compute in ("<<<M1988>>>" ++ check (runes_of_ascii "root
+packet crc
+    { f32a @calculatedFrom( ) """ ++ [233]%N ++ runes_of_ascii "t" ++ [233]%N ++ runes_of_ascii """
+    `say ""hi""`, lengthOf `` ,  }")).
+Eval vm_compute in ("<<<M3718>>>" ++ check (runes_of_ascii "packet A {
+    B b `tab
+    	x`,
+    B `tab
+    	x`,
+    repeat B bs `tab
+    	x`,
 }")).
-Eval vm_compute in ("<<<M3594>>>" ++ check (runes_of_ascii "packet f32a {
-    @tag(1)
-    Z9_ chars,
-    chars `
-    `,
-}")).
-Eval vm_compute in ("<<<M3430>>>" ++ check (runes_of_ascii "root packet P {
-    hdr {
-        u8 a,
-    },
-    u8 x,
+Eval vm_compute in ("<<<M1958>>>" ++ check (runes_of_ascii "
+packet crc
+    { f32a @calculatedFrom( """ ++ [233]%N ++ runes_of_ascii "t" ++ [233]%N ++ runes_of_ascii """ )
+    `say ""hi""`, lengthOf `` ,  }")).
+Eval vm_compute in ("<<<M3316>>>" ++ check (runes_of_ascii "packet o { @tag( 42 ) repeat x { char[ 0123456789 ] // c
+i64_ , } , } options { }")).
+Eval vm_compute in ("<<<M3448>>>" ++ check (runes_of_ascii "options {
+    FixedStringPadFromLeft = true;
+}
+root packet P {
+    char[4] z,
 }
 ")).
+Eval vm_compute in ("<<<M3482>>>" ++ check (runes_of_ascii "packet
+    orderItem  { u8 a	,
+} root
+packet newOrder{	orderItem	, u8 x	,}
+")).
+Eval vm_compute in ("<<<M3845>>>" ++ check (runes_of_ascii "
+
+  packet A
+{
+	Inner
+	{ u8
+
+    x	`x
+`
+,
+	Deep{ u8  y`x
+` , } 
+,},  }
+")).
+Eval vm_compute in ("<<<M916>>>" ++ check (runes_of_ascii "MetaData crc	{ roots _x, u128 rootA `
+`, zchar[ 0 ] Foo `line1
+line2` , }")).
+Eval vm_compute in ("<<<M3413>>>" ++ check (runes_of_ascii "MetaData _x { zchar[ 4294967296 ] lengthOf `// not a comment` , } // c
+")).
+Eval vm_compute in ("<<<M3408>>>" ++ check (runes_of_ascii "MetaData _x { zchar[ 4294967296 ] lengthOf
+// c
+`// not a comment` , }")).
+Eval vm_compute in ("<<<M2167>>>" ++ check (runes_of_ascii "root
+    // `tick` ""quote"" 'q'
+    packet As { { trueish Packet , }
+")).
+Eval vm_compute in ("<<<M2881>>>" ++ check (runes_of_ascii "packet A {
+  match k as n {
+    [1, 22, ""c c""] : B
+    2 : C
+  },
+}")).
+Eval vm_compute in ("<<<M763>>>" ++ check (runes_of_ascii "root
+    packet pack { }packet //
+u8x {
+    }
+MetaData o
+{ } // c")).
+Eval vm_compute in ("<<<M2189>>>" ++ check (runes_of_ascii "root
+    // `tick` ""quote"" 'q'
+    packet As { trueish Packet ,")).
+Eval vm_compute in ("<<<M2910>>>" ++ check (runes_of_ascii "packet A { Inner { match k as n { [1,22,007,4,5] : B, }, }, }")).
+Eval vm_compute in ("<<<M3657>>>" ++ check (runes_of_ascii "
+//
+options { 
+options1
+	=""a\""b""  } 
+        // @lengthOf(")).
 Eval vm_compute in ("<<<M2718>>>" ++ check (runes_of_ascii "} } int64 """ ++ [28040; 24687]%N ++ runes_of_ascii """ ] char[ ) i64 packet @lengthOf( ; lengthOf")).
-Eval vm_compute in ("<<<M1902>>>" ++ check (runes_of_ascii "
-packet	{ As @calculatedFrom(//x
+Eval vm_compute in ("<<<M1898>>>" ++ check (runes_of_ascii "
+As	packet { @calculatedFrom(//x
 ""{,}""	)lengthOf , } 	 ")).
 Eval vm_compute in ("<<<M2871>>>" ++ check (runes_of_ascii "packet A { Inner { match k as n { [1,22] : B, }, }, }")).
-Eval vm_compute in ("<<<M1745>>>" ++ check (runes_of_ascii "options uint32 }options {  } // `tick` ""quote"" 'q'")).
-Eval vm_compute in ("<<<M2586>>>" ++ check (runes_of_ascii "packet A { x @lengthOf(y) @calculatedFrom(""c""), }")).
-Eval vm_compute in ("<<<M1757>>>" ++ check (runes_of_ascii "options { }options { {  } // `tick` ""quote"" 'q'")).
-Eval vm_compute in ("<<<M2175>>>" ++ check (runes_of_ascii "root
-    // `tick` ""quote"" 'q'
-    packet As {")).
-Eval vm_compute in ("<<<M1761>>>" ++ check (runes_of_ascii "options { }options {   // `tick` ""quote"" 'q'")).
-Eval vm_compute in ("<<<M355>>>" ++ check (runes_of_ascii "root
-    packet repeatCount {	A	,
-    } 	 ")).
-Eval vm_compute in ("<<<M3151>>>" ++ check (runes_of_ascii "packet A {
-    u8 x,    // c    u8 y,
+Eval vm_compute in ("<<<M1955>>>" ++ check (runes_of_ascii "
+packet	As { @calculatedFrom(//x
+""{,}""	)a" ++ [769]%N ++ runes_of_ascii "b , } 	 ")).
+Eval vm_compute in ("<<<M3566>>>" ++ check (runes_of_ascii "
+MetaData M {
+    u8 x`
+`
+, T	t 
+`
+` ,
+
+    } ")).
+Eval vm_compute in ("<<<M1770>>>" ++ check (runes_of_ascii "options { }options {  } // `tick` ""quo''te"" 'q'")).
+Eval vm_compute in ("<<<M1779>>>" ++ check (runes_of_ascii "options ""{ }options {  } // `tick` ""quote"" 'q'")).
+Eval vm_compute in ("<<<M489>>>" ++ check (runes_of_ascii "// packet A { u8 x, }
+ // `tick` ""quote"" 'q'")).
+Eval vm_compute in ("<<<M3042>>>" ++ check (runes_of_ascii "MetaData M {
+    u8 x `
+x`,
+    T t `
+x`,
 }")).
-Eval vm_compute in ("<<<M2758>>>" ++ check (runes_of_ascii "int32 char[] i32 = float32 float32 char[")).
-Eval vm_compute in ("<<<M2140>>>" ++ check (runes_of_ascii "MetaData x
-{// " ++ [128512]%N ++ runes_of_ascii " emoji
-/i16 stringy , }")).
+Eval vm_compute in ("<<<M2623>>>" ++ check (runes_of_ascii "packet A { @leftPad('0' '0') char[2] x, }")).
+Eval vm_compute in ("<<<M2756>>>" ++ check (runes_of_ascii "nueM}|d!jTeH%\GJjof8G!IY}Og26Y'e]tl6awM""")).
+Eval vm_compute in ("<<<M1910>>>" ++ check (runes_of_ascii "
+packet	As { //x
+""{,}""	)lengthOf , } 	 ")).
 Eval vm_compute in ("<<<M2616>>>" ++ check (runes_of_ascii "packet A { match k as n { '0' : B }, }")).
-Eval vm_compute in ("<<<M3160>>>" ++ check (runes_of_ascii "MetaData M {
-}// c
-MetaData N {
-}// d")).
-Eval vm_compute in ("<<<M2639>>>" ++ check (runes_of_ascii "root packet A { } root packet B { }")).
-Eval vm_compute in ("<<<M2048>>>" ++ check (runes_of_ascii "MetaData MetaData A { u64 pack, }")).
-Eval vm_compute in ("<<<M3635>>>" ++ check (runes_of_ascii "packet A {
-    u8 x `d" ++ [11]%N ++ runes_of_ascii "`,// c" ++ [11]%N ++ runes_of_ascii "
+Eval vm_compute in ("<<<M2760>>>" ++ check (runes_of_ascii "3#otkgH:+^FT^?x|t5RQ/GU$o[_gS~s3=JWej")).
+Eval vm_compute in ("<<<M2696>>>" ++ check (runes_of_ascii "Ql.'X9""L&.Qjt%tErjR_Lrg0|C7=a^RM`;F")).
+Eval vm_compute in ("<<<M2649>>>" ++ check (runes_of_ascii "MetaData M { u8 x @lengthOf(y), }")).
+Eval vm_compute in ("<<<M776>>>" ++ check (runes_of_ascii "options { falsey = false
+    }
+")).
+Eval vm_compute in ("<<<M3073>>>" ++ check (runes_of_ascii "packet A {
+ u8 x `d" ++ [160]%N ++ runes_of_ascii "`, // c" ++ [160]%N ++ runes_of_ascii "
 }")).
-Eval vm_compute in ("<<<M2784>>>" ++ check (runes_of_ascii "uint32 : ; 7 `tab	here` , char")).
-Eval vm_compute in ("<<<M2092>>>" ++ check (runes_of_ascii "MetaData A { u64 pack, }@tag ")).
-Eval vm_compute in ("<<<M66>>>" ++ check (runes_of_ascii "packet Foo{ f64 Pad ,x
-, }")).
-Eval vm_compute in ("<<<M2072>>>" ++ check (runes_of_ascii "MetaData A { u64 pack, , }")).
-Eval vm_compute in ("<<<M2099>>>" ++ check (runes_of_ascii "MetaData A { u64 na" ++ [239]%N ++ runes_of_ascii "ve, }")).
-Eval vm_compute in ("<<<M2073>>>" ++ check (runes_of_ascii "MetaData A { u64 pack} ,")).
-Eval vm_compute in ("<<<M2056>>>" ++ check (runes_of_ascii "MetaData A  u64 pack, }")).
-Eval vm_compute in ("<<<M2398>>>" ++ check (runes_of_ascii "MetaData A
-{
-i64
-chars")).
-Eval vm_compute in ("<<<M3149>>>" ++ check (runes_of_ascii "packet A {
-}// a// b")).
-Eval vm_compute in ("<<<M590>>>" ++ check (runes_of_ascii "
-packet x_y_z { }
+Eval vm_compute in ("<<<M3572>>>" ++ check (runes_of_ascii "
+// c" ++ [8239]%N ++ runes_of_ascii "
+	packet
+    A {
+	}
 
 ")).
-Eval vm_compute in ("<<<M2080>>>" ++ check (runes_of_ascii "MetaData A { u64 p")).
-Eval vm_compute in ("<<<M3112>>>" ++ check (runes_of_ascii "// c" ++ [8287]%N ++ runes_of_ascii "
+Eval vm_compute in ("<<<M1300>>>" ++ check (runes_of_ascii "//
+options {	int
+=
+true; }")).
+Eval vm_compute in ("<<<M2086>>>" ++ check (runes_of_ascii "MetaData A { u64 pack, }@x")).
+Eval vm_compute in ("<<<M2576>>>" ++ check (runes_of_ascii "packet A { char[ x ] y, }")).
+Eval vm_compute in ("<<<M2578>>>" ++ check (runes_of_ascii "packet A { char[ 3 ] , }")).
+Eval vm_compute in ("<<<M2056>>>" ++ check (runes_of_ascii "MetaData A  u64 pack, }")).
+Eval vm_compute in ("<<<M2064>>>" ++ check (runes_of_ascii "MetaData A { ( pack, }")).
+Eval vm_compute in ("<<<M3662>>>" ++ check (runes_of_ascii "// @lengthOf(
+
+	//	t
+")).
+Eval vm_compute in ("<<<M2234>>>" ++ check (runes_of_ascii "MetaData Packet { }")).
+Eval vm_compute in ("<<<M987>>>" ++ check (runes_of_ascii "MetaData asx	{ }
+
+")).
+Eval vm_compute in ("<<<M3102>>>" ++ check (runes_of_ascii "// c" ++ [8233]%N ++ runes_of_ascii "
 packet A {
 }")).
-Eval vm_compute in ("<<<M2759>>>" ++ check ([65533; 65533; 65533; 65533; 65533; 65533]%N ++ runes_of_ascii "|G" ++ [65533; 65533; 65533; 65533; 7; 65533; 65533]%N ++ runes_of_ascii "qb")).
-Eval vm_compute in ("<<<M2651>>>" ++ check (runes_of_ascii "MetaData M M { }")).
-Eval vm_compute in ("<<<M1794>>>" ++ check (runes_of_ascii "packet
-    Pad")).
-Eval vm_compute in ("<<<M2550>>>" ++ check ([65279]%N ++ runes_of_ascii "packet A {}")).
-Eval vm_compute in ("<<<M1751>>>" ++ check (runes_of_ascii "options {")).
-Eval vm_compute in ("<<<M2447>>>" ++ check (runes_of_ascii "trueish")).
-Eval vm_compute in ("<<<M2852>>>" ++ check (runes_of_ascii "uint32")).
-Eval vm_compute in ("<<<M3060>>>" ++ check (runes_of_ascii "// c ")).
-Eval vm_compute in ("<<<M2514>>>" ++ check (runes_of_ascii """//""")).
-Eval vm_compute in ("<<<M2527>>>" ++ check (runes_of_ascii "1.5")).
-Eval vm_compute in ("<<<M2535>>>" ++ check (runes_of_ascii "1_")).
+Eval vm_compute in ("<<<M2655>>>" ++ check (runes_of_ascii "options { a = ; }")).
+Eval vm_compute in ("<<<M2490>>>" ++ check (runes_of_ascii "@calculatedFrom(")).
+Eval vm_compute in ("<<<M2083>>>" ++ check (runes_of_ascii "MetaData A { u")).
+Eval vm_compute in ("<<<M2650>>>" ++ check (runes_of_ascii "MetaData { }")).
+Eval vm_compute in ("<<<M2082>>>" ++ check (runes_of_ascii "MetaData ")).
+Eval vm_compute in ("<<<M2501>>>" ++ check (runes_of_ascii "// a
+b")).
+Eval vm_compute in ("<<<M2425>>>" ++ check (runes_of_ascii "char[")).
+Eval vm_compute in ("<<<M3100>>>" ++ check (runes_of_ascii "// c" ++ [8233]%N)).
+Eval vm_compute in ("<<<M2540>>>" ++ check (runes_of_ascii "[[]]")).
+Eval vm_compute in ("<<<M2547>>>" ++ check (runes_of_ascii "a" ++ [12]%N ++ runes_of_ascii "b")).
+Eval vm_compute in ("<<<M2830>>>" ++ check (runes_of_ascii "qp")).
